@@ -320,33 +320,6 @@ Proof.
   - intros g Hg. apply i_x_notpend0. now apply HYX.
 Qed.
 
-Lemma Inv_complete : forall fl (X : N -> Prop) s f r,
-  Inv X s -> (X f \/ is_done s f = true) -> Inv (fun g => X g /\ g <> f) (fst (complete fl s f r)).
-Proof.
-  intros fl X s f r H Hf. unfold complete. destruct (is_done s f) eqn:E.
-  - simpl. destruct H. constructor; try assumption.
-    + intros g x Hin. destruct (i_cover0 g x Hin) as [?|[?|[?|Hx]]]; auto.
-      destruct (N.eq_dec g f) as [->|Hne]; [right; left; assumption | right; right; right; split; assumption].
-    + intros g [Hg _]. auto.
-    + intros g [Hg _]. auto.
-  - destruct Hf as [Hf|Hf]; [|discriminate].
-    assert (HI : Inv (fun g => X g /\ g <> f) (set_done s (done s ++ [(f, r)]))).
-    { eapply Inv_add_done; try eassumption.
-      - eapply i_x_lt; eassumption.
-      - right. intros r0 Hr0. eapply i_x_notpend; eassumption.
-      - intros g [Hg _]. exact Hg.
-      - intros g Hg. destruct (N.eq_dec g f); [now right | left; split; assumption]. }
-    destruct fl; simpl; [exact HI | eapply Inv_ext; [|exact HI]; reflexivity].
-Qed.
-
-Lemma complete_is_done : forall fl s f r g,
-  is_done (fst (complete fl s f r)) g = is_done s g || (g =? f).
-Proof.
-  intros. unfold complete. destruct (is_done s f) eqn:E.
-  - simpl. destruct (g =? f) eqn:Eg; [apply N.eqb_eq in Eg; subst; rewrite E; reflexivity | now rewrite orb_false_r].
-  - destruct fl; simpl; unfold is_done; simpl; rewrite existsb_app; simpl; rewrite orb_false_r; rewrite (N.eqb_sym f g); reflexivity.
-Qed.
-
 (* popping a request record excuses its future until it is completed (or recorded as lost) *)
 Lemma Inv_pop : forall (X : N -> Prop) s k i r,
   Inv X s -> find_req k i (pend s) = Some r ->
@@ -394,38 +367,6 @@ Proof.
     + destruct (N.eq_dec g f) as [->|Hne]; [right; right; left; apply in_or_app; right; now left | right; right; right; split; assumption].
   - intros g [Hg _]. auto.
   - intros g [Hg _]. auto.
-Qed.
-
-(* errback of a list of requests whose futures are excused or already done *)
-Lemma Inv_errback_list : forall fl e l (X : N -> Prop) s,
-  Inv X s -> (forall r, In r l -> X (r_fut r) \/ is_done s (r_fut r) = true) ->
-  Inv (fun g => X g /\ ~ In g (map r_fut l)) (fst (errback_list fl s e l)).
-Proof.
-  induction l as [|r t IH]; simpl; intros X s H Hl.
-  - eapply Inv_iff; [|exact H]. intro g. tauto.
-  - destruct (complete fl s (r_fut r) (RErr e)) as [s1 o1] eqn:E1.
-    destruct (errback_list fl s1 e t) as [s2 o2] eqn:E2. simpl.
-    assert (Es1 : s1 = fst (complete fl s (r_fut r) (RErr e))) by (rewrite E1; reflexivity).
-    assert (H1 : Inv (fun g => X g /\ g <> r_fut r) s1).
-    { rewrite Es1. apply Inv_complete; [assumption | apply Hl; now left]. }
-    specialize (IH (fun g => X g /\ g <> r_fut r) s1 H1).
-    rewrite E2 in IH. simpl in IH. eapply Inv_iff; [|apply IH].
-    + intro g. simpl. split.
-      * intros [[Hx Hne] Hn]. split; [assumption|]. intros [Heq|Hin]; [now symmetry in Heq | contradiction].
-      * intros [Hx Hn]. split; [split; [assumption|]|]; intro; apply Hn; [left; now symmetry | now right].
-    + intros r0 Hr0. rewrite Es1, complete_is_done.
-      destruct (N.eq_dec (r_fut r0) (r_fut r)) as [Heq|Hne].
-      * right. rewrite Heq, N.eqb_refl. apply orb_true_r.
-      * destruct (Hl r0 (or_intror Hr0)) as [Hx|Hd]; [left; split; assumption | right; rewrite Hd; reflexivity].
-Qed.
-
-Lemma Inv_errback_all : forall fl e s, Inv none s -> Inv none (fst (errback_all fl s e)).
-Proof.
-  intros fl e s H. unfold errback_all.
-  eapply Inv_iff; [|apply Inv_errback_list; [apply Inv_clear; exact H|]].
-  - intro g. simpl. unfold none. split; [|tauto]. intros [[[]|Hin] Hn]. apply Hn.
-    apply in_map_iff in Hin. destruct Hin as [r [<- Hr]]. apply in_map. exact (proj2 (outstanding_in _ _) Hr).
-  - intros r Hr. left. right. apply in_map. exact (proj1 (outstanding_in _ _) Hr).
 Qed.
 
 (* ---- new requests ---- *)
@@ -532,6 +473,142 @@ Proof.
   - intros g Hg r0 Hr0. apply i_x_notpend0; [assumption | eapply remove_req_in; eassumption].
 Qed.
 
+Lemma Inv_request_sent : forall (X : N -> Prop) cfg s k o t (mk : N -> wmsg) (keep : bool),
+  Inv X s ->
+  Inv X (fst (let '(s1, id, f) := new_request s k o t in
+              let '(o1, ok) := send cfg s1 (mk id) in
+              if ok then (s1, o1 ++ [ApiReturned (Some f)])
+              else if keep then (s1, o1 ++ [ApiRaised XTransportLost])
+              else (drop_request s1 k id f, o1 ++ [ApiRaised XTransportLost]))).
+Proof.
+  intros X cfg s k o t mk keep H.
+  pose proof (Inv_new_request X s k o t H) as H1. pose proof (new_request_find X s k o t H) as Hf.
+  destruct (new_request s k o t) as [[s1 id] f]. simpl in H1.
+  destruct (send cfg s1 (mk id)) as [o1 ok]. destruct ok; [assumption|]. destruct keep; [assumption|].
+  simpl. exact (Inv_drop_request X s1 k id _ H1 Hf).
+Qed.
+
+Ltac keep_request X H k o t :=
+  let H1 := fresh "H1" in
+  pose proof (Inv_new_request X _ k o t H) as H1;
+  destruct (new_request _ k o t) as [[?s1 ?id] ?f]; simpl in H1;
+  destruct (send _ _ _) as [?o1 ?ok]; exact H1.
+
+Lemma Inv_api_step : forall (X : N -> Prop) cfg s o, Inv X s -> Inv X (fst (api_step cfg s o)).
+Proof.
+  intros X cfg s o H. destruct o; try exact H; unfold api_step.
+  - destruct (negb (transport s)); [assumption|].
+    exact (Inv_request_sent X cfg s KCall o uri
+             (fun id => MCall id uri a kw match o with Some c => co_timeout c | None => None end
+                              match o with Some c => co_progress c | None => false end) false H).
+  - destruct (negb (transport s)); [assumption|]. destruct (po_wants_ack o).
+    + exact (Inv_request_sent X cfg s KPublish None uri
+               (fun id => MPublish id uri a kw match o with Some p => po_ack p | None => None end
+                                   match o with Some p => po_exclude_me p | None => None end) false H).
+    + unfold new_id_only. destruct (send cfg _ _). simpl. eapply Inv_ext; [|exact H]. reflexivity.
+  - destruct (negb (transport s)); [assumption|]. keep_request X H KSubscribe (@None call_opts) uri.
+  - destruct (negb (transport s)); [assumption|]. keep_request X H KRegister (@None call_opts) uri.
+  - destruct (reg_id_of s h) as [regid|]; [|assumption].
+    destruct (assoc regid (regs s)) as [h'|]; [|assumption].
+    destruct (negb (h' =? h)); [assumption|]. destruct (negb (transport s)); [assumption|].
+    keep_request X H KUnregister (@None call_opts) regid.
+Qed.
+
+Lemma api_step_done : forall cfg s o, done (fst (api_step cfg s o)) = done s.
+Proof.
+  intros cfg s o. destruct o; try reflexivity; unfold api_step.
+  - destruct (negb (transport s)); [reflexivity|]. unfold new_request. cbv zeta beta iota.
+    destruct (send cfg _ _) as [o1 ok]. destruct ok; reflexivity.
+  - destruct (negb (transport s)); [reflexivity|]. destruct (po_wants_ack o); unfold new_request, new_id_only; cbv zeta beta iota;
+      destruct (send cfg _ _) as [o1 ok]; destruct ok; reflexivity.
+  - destruct (negb (transport s)); [reflexivity|]. unfold new_request. cbv zeta beta iota. destruct (send cfg _ _). reflexivity.
+  - destruct (negb (transport s)); [reflexivity|]. unfold new_request. cbv zeta beta iota. destruct (send cfg _ _). reflexivity.
+  - destruct (reg_id_of s h); [|reflexivity]. destruct (assoc n (regs s)); [|reflexivity].
+    destruct (negb (n0 =? h)); [reflexivity|]. destruct (negb (transport s)); [reflexivity|].
+    unfold new_request. cbv zeta beta iota. destruct (send cfg _ _). reflexivity.
+Qed.
+
+Lemma Inv_react : forall (X : N -> Prop) cfg s f, Inv X s -> Inv X (fst (react cfg s f)).
+Proof. intros. unfold react. destruct (assoc f (reacts s)); [now apply Inv_api_step | assumption]. Qed.
+
+Lemma react_done : forall cfg s f, done (fst (react cfg s f)) = done s.
+Proof. intros. unfold react. destruct (assoc f (reacts s)); [apply api_step_done | reflexivity]. Qed.
+
+Lemma Inv_complete : forall fl cfg (X : N -> Prop) s f r,
+  Inv X s -> (X f \/ is_done s f = true) -> Inv (fun g => X g /\ g <> f) (fst (complete fl cfg s f r)).
+Proof.
+  intros fl cfg X s f r H Hf. unfold complete. destruct (is_done s f) eqn:E.
+  - simpl. destruct H. constructor; try assumption.
+    + intros g x Hin. destruct (i_cover0 g x Hin) as [?|[?|[?|Hx]]]; auto.
+      destruct (N.eq_dec g f) as [->|Hne]; [right; left; assumption | right; right; right; split; assumption].
+    + intros g [Hg _]. auto.
+    + intros g [Hg _]. auto.
+  - destruct Hf as [Hf|Hf]; [|discriminate].
+    assert (HI : Inv (fun g => X g /\ g <> f) (set_done s (done s ++ [(f, r)]))).
+    { eapply Inv_add_done; try eassumption.
+      - eapply i_x_lt; eassumption.
+      - right. intros r0 Hr0. eapply i_x_notpend; eassumption.
+      - intros g [Hg _]. exact Hg.
+      - intros g Hg. destruct (N.eq_dec g f); [now right | left; split; assumption]. }
+    destruct fl.
+    + pose proof (Inv_react _ cfg _ f HI) as HR. destruct (react cfg (set_done s (done s ++ [(f, r)])) f). exact HR.
+    + simpl. eapply Inv_ext; [|exact HI]. reflexivity.
+Qed.
+
+Lemma Inv_complete_of_add : forall fl cfg (Y : N -> Prop) s f r,
+  is_done s f = false -> Inv Y (set_done s (done s ++ [(f, r)])) -> Inv Y (fst (complete fl cfg s f r)).
+Proof.
+  intros fl cfg Y s f r Hd HI. unfold complete. rewrite Hd. destruct fl.
+  - pose proof (Inv_react Y cfg _ f HI) as HR. destruct (react cfg (set_done s (done s ++ [(f, r)])) f). exact HR.
+  - simpl. eapply Inv_ext; [|exact HI]. reflexivity.
+Qed.
+
+Lemma complete_is_done : forall fl cfg s f r g,
+  is_done (fst (complete fl cfg s f r)) g = is_done s g || (g =? f).
+Proof.
+  intros. unfold complete. destruct (is_done s f) eqn:E.
+  - simpl. destruct (g =? f) eqn:Eg; [apply N.eqb_eq in Eg; subst; rewrite E; reflexivity | now rewrite orb_false_r].
+  - assert (Hd : is_done (set_done s (done s ++ [(f, r)])) g = is_done s g || (g =? f)).
+    { unfold is_done. simpl. rewrite existsb_app. simpl. rewrite orb_false_r, (N.eqb_sym f g). reflexivity. }
+    destruct fl.
+    + pose proof (react_done cfg (set_done s (done s ++ [(f, r)])) f) as HR.
+      destruct (react cfg (set_done s (done s ++ [(f, r)])) f) as [s2 o2]. simpl in *.
+      unfold is_done in *. rewrite HR. exact Hd.
+    + simpl. exact Hd.
+Qed.
+
+(* errback of a list of requests whose futures are excused or already done *)
+Lemma Inv_errback_list : forall fl cfg e l (X : N -> Prop) s,
+  Inv X s -> (forall r, In r l -> X (r_fut r) \/ is_done s (r_fut r) = true) ->
+  Inv (fun g => X g /\ ~ In g (map r_fut l)) (fst (errback_list fl cfg s e l)).
+Proof.
+  induction l as [|r t IH]; simpl; intros X s H Hl.
+  - eapply Inv_iff; [|exact H]. intro g. tauto.
+  - destruct (complete fl cfg s (r_fut r) (RErr e)) as [s1 o1] eqn:E1.
+    destruct (errback_list fl cfg s1 e t) as [s2 o2] eqn:E2. simpl.
+    assert (Es1 : s1 = fst (complete fl cfg s (r_fut r) (RErr e))) by (rewrite E1; reflexivity).
+    assert (H1 : Inv (fun g => X g /\ g <> r_fut r) s1).
+    { rewrite Es1. apply Inv_complete; [assumption | apply Hl; now left]. }
+    specialize (IH (fun g => X g /\ g <> r_fut r) s1 H1).
+    rewrite E2 in IH. simpl in IH. eapply Inv_iff; [|apply IH].
+    + intro g. simpl. split.
+      * intros [[Hx Hne] Hn]. split; [assumption|]. intros [Heq|Hin]; [now symmetry in Heq | contradiction].
+      * intros [Hx Hn]. split; [split; [assumption|]|]; intro; apply Hn; [left; now symmetry | now right].
+    + intros r0 Hr0. rewrite Es1, complete_is_done.
+      destruct (N.eq_dec (r_fut r0) (r_fut r)) as [Heq|Hne].
+      * right. rewrite Heq, N.eqb_refl. apply orb_true_r.
+      * destruct (Hl r0 (or_intror Hr0)) as [Hx|Hd]; [left; split; assumption | right; rewrite Hd; reflexivity].
+Qed.
+
+Lemma Inv_errback_all : forall fl cfg e s, Inv none s -> Inv none (fst (errback_all fl cfg s e)).
+Proof.
+  intros fl cfg e s H. unfold errback_all.
+  eapply Inv_iff; [|apply Inv_errback_list; [apply Inv_clear; exact H|]].
+  - intro g. simpl. unfold none. split; [|tauto]. intros [[[]|Hin] Hn]. apply Hn.
+    apply in_map_iff in Hin. destruct Hin as [r [<- Hr]]. apply in_map. exact (proj2 (outstanding_in _ _) Hr).
+  - intros r Hr. left. right. apply in_map. exact (proj1 (outstanding_in _ _) Hr).
+Qed.
+
 (* ---- composite functions ---- *)
 Lemma Inv_weaken_done : forall (X Y : N -> Prop) s,
   Inv X s -> (forall g, X g -> is_done s g = true \/ Y g) -> (forall g, Y g -> X g) -> Inv Y s.
@@ -542,9 +619,9 @@ Proof.
   - intros g Hg. auto.
 Qed.
 
-Lemma Inv_complete_popped : forall fl s f r, Inv (fun g => none g \/ g = f) s -> Inv none (fst (complete fl s f r)).
+Lemma Inv_complete_popped : forall fl cfg s f r, Inv (fun g => none g \/ g = f) s -> Inv none (fst (complete fl cfg s f r)).
 Proof.
-  intros fl s f r H. eapply Inv_iff; [|apply Inv_complete; [exact H | left; now right]].
+  intros fl cfg s f r H. eapply Inv_iff; [|apply Inv_complete; [exact H | left; now right]].
   intro g. unfold none. simpl. tauto.
 Qed.
 
@@ -561,39 +638,44 @@ Proof.
   - intros g [].
 Qed.
 
-Lemma run_leaf_ledger : forall fl cfg s l, ledger (fst (run_leaf fl cfg s l)) = ledger s.
+Definition not_userdone (l : leaf) : Prop := match l with LUserDone _ _ => False | _ => True end.
+
+Lemma run_leaf_ledger : forall fl cfg s l, not_userdone l -> ledger (fst (run_leaf fl cfg s l)) = ledger s.
 Proof.
-  intros fl cfg s l. destruct l; simpl; try reflexivity.
+  intros fl cfg s l Hl. destruct l; simpl; try reflexivity; try contradiction.
   - destruct (sdetails s); reflexivity.
   - destruct (transport s); reflexivity.
   - destruct (transport s); [destruct (send cfg s (MCancel id))|]; reflexivity.
   - destruct (transport s); [destruct (send cfg (set_invs s (remove1 rq (invs s))) (MYield rq))|]; reflexivity.
 Qed.
 
-Lemma defer_leaf_ledger : forall fl cfg s l, ledger (fst (defer_leaf fl cfg s l)) = ledger s.
-Proof. intros. destruct fl; simpl; [apply run_leaf_ledger | reflexivity]. Qed.
+Lemma defer_leaf_ledger : forall fl cfg s l, not_userdone l -> ledger (fst (defer_leaf fl cfg s l)) = ledger s.
+Proof. intros. destruct fl; simpl; [now apply run_leaf_ledger | reflexivity]. Qed.
 
 Lemma Inv_run_leaf : forall fl cfg X s l, Inv X s -> Inv X (fst (run_leaf fl cfg s l)).
-Proof. intros. eapply Inv_ext; [symmetry; apply run_leaf_ledger | assumption]. Qed.
+Proof.
+  intros fl cfg X s l H. destruct l; try (eapply Inv_ext; [symmetry; apply run_leaf_ledger; exact I | assumption]).
+  simpl. pose proof (Inv_react X cfg s f H) as HR. destruct (react cfg s f). exact HR.
+Qed.
 
 Lemma Inv_defer_leaf : forall fl cfg X s l, Inv X s -> Inv X (fst (defer_leaf fl cfg s l)).
-Proof. intros. eapply Inv_ext; [symmetry; apply defer_leaf_ledger | assumption]. Qed.
+Proof. intros. destruct fl; simpl; [now apply Inv_run_leaf | eapply Inv_ext; [|eassumption]; reflexivity]. Qed.
 
 Lemma Inv_do_onLeave : forall fl cfg s rs, Inv none s -> Inv none (fst (fst (do_onLeave fl cfg s rs))).
 Proof.
   intros fl cfg s rs H. unfold do_onLeave. destruct (u_leave_super cfg); [|assumption].
-  destruct (errback_all fl s (ELeave rs)) as [s1 o1] eqn:E1.
+  destruct (errback_all fl cfg s (ELeave rs)) as [s1 o1] eqn:E1.
   destruct (defer_leaf fl cfg s1 LLeaveDisconnect) as [s2 o2] eqn:E2. simpl.
   replace s2 with (fst (defer_leaf fl cfg s1 LLeaveDisconnect)) by (rewrite E2; reflexivity).
-  apply Inv_defer_leaf. replace s1 with (fst (errback_all fl s (ELeave rs))) by (rewrite E1; reflexivity).
+  apply Inv_defer_leaf. replace s1 with (fst (errback_all fl cfg s (ELeave rs))) by (rewrite E1; reflexivity).
   now apply Inv_errback_all.
 Qed.
 
 Lemma Inv_do_onDisconnect : forall fl cfg s, Inv none s -> Inv none (fst (fst (do_onDisconnect fl cfg s))).
 Proof.
   intros fl cfg s H. unfold do_onDisconnect. destruct (u_disc_super cfg); [|assumption].
-  destruct (errback_all fl s ETransportLost) as [s1 o1] eqn:E1. simpl.
-  replace s1 with (fst (errback_all fl s ETransportLost)) by (rewrite E1; reflexivity).
+  destruct (errback_all fl cfg s ETransportLost) as [s1 o1] eqn:E1. simpl.
+  replace s1 with (fst (errback_all fl cfg s ETransportLost)) by (rewrite E1; reflexivity).
   now apply Inv_errback_all.
 Qed.
 
@@ -733,27 +815,6 @@ Proof.
   destruct (sid s); [now apply Inv_established | now apply Inv_unjoined].
 Qed.
 
-Lemma Inv_request_sent : forall (X : N -> Prop) cfg s k o t (mk : N -> wmsg) (keep : bool),
-  Inv X s ->
-  Inv X (fst (let '(s1, id, f) := new_request s k o t in
-              let '(o1, ok) := send cfg s1 (mk id) in
-              if ok then (s1, o1 ++ [ApiReturned (Some f)])
-              else if keep then (s1, o1 ++ [ApiRaised XTransportLost])
-              else (drop_request s1 k id f, o1 ++ [ApiRaised XTransportLost]))).
-Proof.
-  intros X cfg s k o t mk keep H.
-  pose proof (Inv_new_request X s k o t H) as H1. pose proof (new_request_find X s k o t H) as Hf.
-  destruct (new_request s k o t) as [[s1 id] f]. simpl in H1.
-  destruct (send cfg s1 (mk id)) as [o1 ok]. destruct ok; [assumption|]. destruct keep; [assumption|].
-  simpl. exact (Inv_drop_request X s1 k id _ H1 Hf).
-Qed.
-
-Ltac keep_request H k o t :=
-  let H1 := fresh "H1" in
-  pose proof (Inv_new_request none _ k o t H) as H1;
-  destruct (new_request _ k o t) as [[?s1 ?id] ?f]; simpl in H1;
-  destruct (send _ _ _) as [?o1 ?ok]; exact H1.
-
 Theorem step_Inv : forall fl cfg s o, Inv none s -> Inv none (fst (step fl cfg s o)).
 Proof.
   intros fl cfg s o H. destruct o; try (apply Inv_router; assumption); unfold step; cbv beta iota.
@@ -782,21 +843,10 @@ Proof.
     destruct (defer_leaf fl cfg s4 (LDiscK raised)) as [s5 o5]. exact H5.
   - (* OTurn *)
     destruct fl; [assumption|]. apply Inv_run_queue. eapply Inv_ext; [|exact H]. reflexivity.
-  - (* ACall *)
-    destruct (negb (transport s)); [assumption|].
-    exact (Inv_request_sent none cfg s KCall o uri
-             (fun id => MCall id uri a kw match o with Some c => co_timeout c | None => None end
-                              match o with Some c => co_progress c | None => false end) false H).
-  - (* APublish *)
-    destruct (negb (transport s)); [assumption|]. destruct (po_wants_ack o).
-    + exact (Inv_request_sent none cfg s KPublish None uri
-               (fun id => MPublish id uri a kw match o with Some p => po_ack p | None => None end
-                                   match o with Some p => po_exclude_me p | None => None end) false H).
-    + unfold new_id_only. destruct (send cfg _ _). simpl. eapply Inv_ext; [|exact H]. reflexivity.
-  - (* ASubscribe *)
-    destruct (negb (transport s)); [assumption|]. keep_request H KSubscribe (@None call_opts) uri.
-  - (* ARegister *)
-    destruct (negb (transport s)); [assumption|]. keep_request H KRegister (@None call_opts) uri.
+  - (* ACall *) now apply Inv_api_step.
+  - (* APublish *) now apply Inv_api_step.
+  - (* ASubscribe *) now apply Inv_api_step.
+  - (* ARegister *) now apply Inv_api_step.
   - (* AUnsubscribe *)
     destruct (sub_id_of s h) as [subid|]; [|assumption].
     destruct (negb (memN h match assoc subid (subs s) with Some l => l | None => [] end)); [assumption|].
@@ -805,7 +855,7 @@ Proof.
     set (s0 := set_subs s (assoc_set subid rest (subs s))).
     assert (H0 : Inv none s0) by (eapply Inv_ext; [|exact H]; reflexivity).
     destruct rest as [|x rest'].
-    + keep_request H0 KUnsubscribe (@None call_opts) subid.
+    + keep_request none H0 KUnsubscribe (@None call_opts) subid.
     + (* a fresh, already completed future *)
       set (f := next_fut s0).
       set (s1 := set_newreq s0 (next_id s0) (pend s0) (f + 1) (issued s0) (lost s0)).
@@ -817,33 +867,27 @@ Proof.
       assert (Hnd : is_done s1 f = false).
       { apply is_done_false. intro Hin. apply in_map_iff in Hin. destruct Hin as [[g rr] [Hg Hin]]. simpl in Hg. subst g.
         destruct H0. apply i_done_lt0 in Hin. unfold f in Hin. lia. }
-      assert (H2 : Inv none (fst (complete fl s1 f (ROk (VCount (N.of_nat (length (x :: rest')))))))).
-      { unfold complete. rewrite Hnd.
-        assert (HI : Inv none (set_done s1 (done s1 ++ [(f, ROk (VCount (N.of_nat (length (x :: rest')))))]))).
-        { eapply Inv_add_done; try eassumption.
-          - simpl. lia.
-          - right. intros r0 Hr0. pose proof (Inv_pend_lt _ _ H0 r0 Hr0) as Hlt. unfold f. simpl in Hr0. lia.
-          - auto.
-          - intros g []. }
-        destruct fl; simpl; [exact HI | eapply Inv_ext; [|exact HI]; reflexivity]. }
-      destruct (complete fl s1 f (ROk (VCount (N.of_nat (length (x :: rest')))))) as [s2 o2]. exact H2.
-  - (* AUnregister *)
-    destruct (reg_id_of s h) as [regid|]; [|assumption].
-    destruct (assoc regid (regs s)) as [h'|]; [|assumption].
-    destruct (negb (h' =? h)); [assumption|]. destruct (negb (transport s)); [assumption|].
-    keep_request H KUnregister (@None call_opts) regid.
+      assert (H2 : Inv none (fst (complete fl cfg s1 f (ROk (VCount (N.of_nat (length (x :: rest')))))))).
+      { apply Inv_complete_of_add; [exact Hnd|].
+        eapply Inv_add_done; try eassumption.
+        - simpl. lia.
+        - right. intros r0 Hr0. pose proof (Inv_pend_lt _ _ H0 r0 Hr0) as Hlt. unfold f. simpl in Hr0. lia.
+        - auto.
+        - intros g []. }
+      destruct (complete fl cfg s1 f (ROk (VCount (N.of_nat (length (x :: rest')))))) as [s2 o2]. exact H2.
+  - (* AUnregister *) now apply Inv_api_step.
   - (* ACancel *)
     destruct (is_done s f) eqn:Ed; [assumption|].
     destruct (assoc f (issued s)) as [[k id]|] eqn:Ea; [|assumption].
     assert (Hlt : f < next_fut s) by (eapply i_issued_lt; [exact H | eapply assoc_in; exact Ea]).
     assert (HC : Inv none (set_done s (done s ++ [(f, RErr ECancelled)]))).
     { eapply Inv_add_done; try eassumption; auto. }
-    assert (HC' : Inv none (fst (complete fl s f (RErr ECancelled)))).
-    { unfold complete. rewrite Ed. destruct fl; simpl; [exact HC | eapply Inv_ext; [|exact HC]; reflexivity]. }
+    assert (HC' : Inv none (fst (complete fl cfg s f (RErr ECancelled)))).
+    { now apply Inv_complete_of_add. }
     destruct fl.
-    + destruct k; try (destruct (complete Tx s f (RErr ECancelled)); exact HC').
+    + destruct k; try (destruct (complete Tx cfg s f (RErr ECancelled)); exact HC').
       destruct (transport s); [|assumption]. destruct (send cfg s (MCancel id)) as [o1 ok]. destruct ok; [|assumption].
-      destruct (complete Tx s f (RErr ECancelled)); exact HC'.
+      destruct (complete Tx cfg s f (RErr ECancelled)); exact HC'.
     + simpl. destruct k; simpl; (eapply Inv_ext; [|exact HC]; reflexivity).
   - (* ALeave *)
     destruct (negb (sid_truthy s)); [assumption|]. destruct (goodbye_sent s); [assumption|].
@@ -851,6 +895,9 @@ Proof.
     simpl. eapply Inv_ext; [|exact H]. reflexivity.
   - (* ADisconnect *)
     destruct (transport s); [|assumption]. simpl. eapply Inv_ext; [|exact H]. reflexivity.
+  - (* AReact *)
+    destruct (is_react_op o && negb (is_done s f) && isNoneB (assoc f (reacts s))); [|assumption].
+    simpl. eapply Inv_ext; [|exact H]. reflexivity.
 Qed.
 
 Theorem run_Inv : forall fl cfg ops s, Inv none s -> Inv none (fst (run fl cfg s ops)).
@@ -931,31 +978,31 @@ Proof. reflexivity. Qed.
 Theorem reply_completes : forall fl cfg s o v k i c r,
   transport s = true -> sid s = Some v ->
   reply_spec o = Some (k, i, c) -> find_req k i (pend s) = Some r -> is_done s (r_fut r) = false ->
-  reply_wellformed s o ->
+  reply_wellformed s o -> assoc (r_fut r) (reacts s) = None ->
   let '(s', outs) := step fl cfg s o in
   pend s' = remove_req k i (pend s) /\ done s' = done s ++ [(r_fut r, c r)] /\ user_sees fl s s' outs (r_fut r) (c r)
   /\ issued s' = issued s /\ lost s' = lost s /\ next_id s' = next_id s /\ sid s' = sid s.
 Proof.
-  intros fl cfg s o v k i c r Ht Hs Hspec Hf Hd Hwf.
+  intros fl cfg s o v k i c r Ht Hs Hspec Hf Hd Hwf Hno.
   destruct o; simpl in Hspec; try discriminate.
   - inversion Hspec; subst. unfold step. rewrite Ht, Hs. simpl. unfold pop_reply. rewrite Hf, is_done_set_pend, Hd.
-    unfold complete. rewrite is_done_set_pend, Hd. destruct fl; simpl; repeat split; try reflexivity; simpl; congruence.
+    unfold complete. rewrite is_done_set_pend, Hd. unfold react; simpl; rewrite ?Hno; destruct fl; simpl; repeat split; try reflexivity; simpl; congruence.
   - inversion Hspec; subst. unfold step. rewrite Ht, Hs. simpl. unfold pop_reply. rewrite Hf, is_done_set_pend, Hd.
-    unfold complete. unfold is_done in *. simpl. rewrite Hd. destruct fl; simpl; repeat split; try reflexivity; simpl; congruence.
+    unfold complete. unfold is_done in *. simpl. rewrite Hd. unfold react; simpl; rewrite ?Hno; destruct fl; simpl; repeat split; try reflexivity; simpl; congruence.
   - inversion Hspec; subst. unfold step. rewrite Ht, Hs. simpl. unfold pop_reply. rewrite Hf, is_done_set_pend, Hd.
-    unfold complete. unfold is_done in *. simpl. rewrite Hd. destruct fl; simpl; repeat split; try reflexivity; simpl; congruence.
+    unfold complete. unfold is_done in *. simpl. rewrite Hd. unfold react; simpl; rewrite ?Hno; destruct fl; simpl; repeat split; try reflexivity; simpl; congruence.
   - destruct progress; [discriminate|]. inversion Hspec; subst. unfold step. rewrite Ht, Hs. simpl. rewrite Hf.
     rewrite is_done_set_pend, Hd. unfold complete. rewrite is_done_set_pend, Hd.
-    destruct fl; simpl; repeat split; try reflexivity; simpl; congruence.
+    unfold react; simpl; rewrite ?Hno; destruct fl; simpl; repeat split; try reflexivity; simpl; congruence.
   - inversion Hspec; subst. simpl in Hwf. unfold step. rewrite Ht, Hs. simpl. unfold pop_reply.
     rewrite Hf, is_done_set_pend, Hd. simpl. rewrite Hwf.
-    unfold complete. unfold is_done in *. simpl. rewrite Hd. destruct fl; simpl; repeat split; try reflexivity; simpl; congruence.
+    unfold complete. unfold is_done in *. simpl. rewrite Hd. unfold react; simpl; rewrite ?Hno; destruct fl; simpl; repeat split; try reflexivity; simpl; congruence.
   - destruct (rq =? 0) eqn:E0; [discriminate|]. inversion Hspec; subst. unfold step. rewrite Ht, Hs. simpl. rewrite E0.
     unfold pop_reply. rewrite Hf, is_done_set_pend, Hd.
-    unfold complete. unfold is_done in *. simpl. rewrite Hd. destruct fl; simpl; repeat split; try reflexivity; simpl; congruence.
+    unfold complete. unfold is_done in *. simpl. rewrite Hd. unfold react; simpl; rewrite ?Hno; destruct fl; simpl; repeat split; try reflexivity; simpl; congruence.
   - destruct (kind_of_code rtype) as [k'|] eqn:Ek; [|discriminate]. inversion Hspec; subst.
     unfold step. rewrite Ht, Hs. simpl. rewrite Ek, Hf.
-    unfold complete. rewrite is_done_set_pend, Hd. destruct fl; simpl; repeat split; try reflexivity; simpl; congruence.
+    unfold complete. rewrite is_done_set_pend, Hd. unfold react; simpl; rewrite ?Hno; destruct fl; simpl; repeat split; try reflexivity; simpl; congruence.
 Qed.
 
 (* a reply that matches no pending request: ProtocolError, nothing changes *)
@@ -986,12 +1033,13 @@ Proof. intros. unfold step. rewrite H, H0. simpl. rewrite H1. reflexivity. Qed.
 (* whatever a reply does, it touches only the record stored under its own (kind, id) *)
 Theorem reply_no_cross : forall fl cfg s o v k i c,
   transport s = true -> sid s = Some v -> reply_spec o = Some (k, i, c) ->
+  (forall r, find_req k i (pend s) = Some r -> assoc (r_fut r) (reacts s) = None) ->
   let s' := fst (step fl cfg s o) in
   (forall f, is_done s' f = true -> is_done s f = true \/ exists r, find_req k i (pend s) = Some r /\ r_fut r = f)
   /\ (forall r', In r' (pend s) -> req_key r' <> (k, i) -> In r' (pend s'))
   /\ (forall r', In r' (pend s') -> In r' (pend s)).
 Proof.
-  intros fl cfg s o v k i c Ht Hs Hspec.
+  intros fl cfg s o v k i c Ht Hs Hspec Hno.
   assert (Hgen : forall s1, (s1 = s \/ (exists r, find_req k i (pend s) = Some r /\
                     (pend s1 = remove_req k i (pend s)) /\
                     (done s1 = done s \/ exists res, done s1 = done s ++ [(r_fut r, res)]))) ->
@@ -1018,29 +1066,31 @@ Proof.
     destruct (is_done (set_pend s (remove_req k i (pend s))) (r_fut r)).
     - simpl. split; [reflexivity | now left].
     - apply (Hfound r _ eq_refl eq_refl). }
-  assert (Hcomp : forall fl0 s1 f res, pend (fst (complete fl0 s1 f res)) = pend s1 /\
-             (done (fst (complete fl0 s1 f res)) = done s1 \/ done (fst (complete fl0 s1 f res)) = done s1 ++ [(f, res)])).
-  { intros. unfold complete. destruct (is_done s1 f); [simpl; auto|]. destruct fl0; simpl; auto. }
+  assert (Hcomp : forall fl0 s1 f res, assoc f (reacts s1) = None ->
+             pend (fst (complete fl0 cfg s1 f res)) = pend s1 /\
+             (done (fst (complete fl0 cfg s1 f res)) = done s1 \/ done (fst (complete fl0 cfg s1 f res)) = done s1 ++ [(f, res)])).
+  { intros fl0 s1 f res Hn. unfold complete. destruct (is_done s1 f); [simpl; auto|].
+    destruct fl0; simpl; [unfold react; simpl; rewrite Hn; simpl; auto | auto]. }
   destruct o; simpl in Hspec; try discriminate; unfold step; rewrite Ht, Hs; simpl.
-  - inversion Hspec; subst. apply Hpop. intros r s1 _ ->.
-    destruct (Hcomp fl (set_pend s (remove_req KPublish i (pend s))) (r_fut r) (ROk (VPublication pubid))) as [Hp [Hd|Hd]];
+  - inversion Hspec; subst. apply Hpop. intros r s1 Hfr ->.
+    destruct (Hcomp fl (set_pend s (remove_req KPublish i (pend s))) (r_fut r) (ROk (VPublication pubid)) (Hno _ Hfr)) as [Hp [Hd|Hd]];
       rewrite Hp, Hd; simpl; eauto.
-  - inversion Hspec; subst. apply Hpop. intros r s1 _ ->.
-    match goal with |- context [complete fl ?S ?F ?R] => destruct (Hcomp fl S F R) as [Hp [Hd|Hd]]; rewrite Hp, Hd; simpl; eauto end.
-  - inversion Hspec; subst. apply Hpop. intros r s1 _ ->.
-    match goal with |- context [complete fl ?S ?F ?R] => destruct (Hcomp fl S F R) as [Hp [Hd|Hd]]; rewrite Hp, Hd; simpl; eauto end.
+  - inversion Hspec; subst. apply Hpop. intros r s1 Hfr ->.
+    match goal with |- context [complete fl cfg ?S ?F ?R] => destruct (Hcomp fl S F R (Hno _ Hfr)) as [Hp [Hd|Hd]]; rewrite Hp, Hd; simpl; eauto end.
+  - inversion Hspec; subst. apply Hpop. intros r s1 Hfr ->.
+    match goal with |- context [complete fl cfg ?S ?F ?R] => destruct (Hcomp fl S F R (Hno _ Hfr)) as [Hp [Hd|Hd]]; rewrite Hp, Hd; simpl; eauto end.
   - destruct progress; [discriminate|]. inversion Hspec; subst.
     destruct (find_req KCall i (pend s)) as [r|] eqn:Ef; [|now left]. right. exists r. split; [reflexivity|].
     destruct (is_done (set_pend s (remove_req KCall i (pend s))) (r_fut r)); [simpl; auto|].
-    match goal with |- context [complete fl ?S ?F ?R] => destruct (Hcomp fl S F R) as [Hp [Hd|Hd]]; rewrite Hp, Hd; simpl; eauto end.
-  - inversion Hspec; subst. apply Hpop. intros r s1 _ ->.
+    match goal with |- context [complete fl cfg ?S ?F ?R] => destruct (Hcomp fl S F R (Hno _ eq_refl)) as [Hp [Hd|Hd]]; rewrite Hp, Hd; simpl; eauto end.
+  - inversion Hspec; subst. apply Hpop. intros r s1 Hfr ->.
     destruct (assoc regid (regs (set_pend s (remove_req KRegister i (pend s))))); [simpl; auto|].
-    match goal with |- context [complete fl ?S ?F ?R] => destruct (Hcomp fl S F R) as [Hp [Hd|Hd]]; rewrite Hp, Hd; simpl; eauto end.
-  - destruct (rq =? 0) eqn:E0; [discriminate|]. inversion Hspec; subst. apply Hpop. intros r s1 _ ->.
-    match goal with |- context [complete fl ?S ?F ?R] => destruct (Hcomp fl S F R) as [Hp [Hd|Hd]]; rewrite Hp, Hd; simpl; eauto end.
+    match goal with |- context [complete fl cfg ?S ?F ?R] => destruct (Hcomp fl S F R (Hno _ Hfr)) as [Hp [Hd|Hd]]; rewrite Hp, Hd; simpl; eauto end.
+  - destruct (rq =? 0) eqn:E0; [discriminate|]. inversion Hspec; subst. apply Hpop. intros r s1 Hfr ->.
+    match goal with |- context [complete fl cfg ?S ?F ?R] => destruct (Hcomp fl S F R (Hno _ Hfr)) as [Hp [Hd|Hd]]; rewrite Hp, Hd; simpl; eauto end.
   - destruct (kind_of_code rtype) as [k'|] eqn:Ek; [|discriminate]. inversion Hspec; subst.
     destruct (find_req k i (pend s)) as [r|] eqn:Ef; [|now left]. right. exists r. split; [reflexivity|].
-    match goal with |- context [complete fl ?S ?F ?R] => destruct (Hcomp fl S F R) as [Hp [Hd|Hd]]; rewrite Hp, Hd; simpl; eauto end.
+    match goal with |- context [complete fl cfg ?S ?F ?R] => destruct (Hcomp fl S F R (Hno _ eq_refl)) as [Hp [Hd|Hd]]; rewrite Hp, Hd; simpl; eauto end.
 Qed.
 
 (* progressive results: the state does not change at all; only the on_progress handler of that very call can fire,
@@ -1084,7 +1134,7 @@ Theorem call_one_message : forall fl cfg s uri a kw o, transport s = true -> top
     (fun id => MCall id uri a kw (match o with Some c => co_timeout c | None => None end)
                      (match o with Some c => co_progress c | None => false end)).
 Proof.
-  intros. unfold sends_one, step. rewrite H. simpl. unfold send. simpl. rewrite H0. simpl.
+  intros. unfold sends_one, step, api_step. rewrite H. simpl. unfold send. simpl. rewrite H0. simpl.
   eexists. split; [reflexivity|]. simpl. repeat split; reflexivity.
 Qed.
 
@@ -1094,7 +1144,7 @@ Theorem publish_ack_one_message : forall fl cfg s uri a kw o, transport s = true
     (fun id => MPublish id uri a kw (match o with Some p => po_ack p | None => None end)
                         (match o with Some p => po_exclude_me p | None => None end)).
 Proof.
-  intros. unfold sends_one, step. rewrite H. simpl. rewrite H1. unfold send. simpl. rewrite H0. simpl.
+  intros. unfold sends_one, step, api_step. rewrite H. simpl. rewrite H1. unfold send. simpl. rewrite H0. simpl.
   eexists. split; [reflexivity|]. simpl. repeat split; reflexivity.
 Qed.
 
@@ -1106,7 +1156,7 @@ Theorem publish_noack_one_message : forall fl cfg s uri a kw o, transport s = tr
                            (match o with Some p => po_exclude_me p | None => None end)); ApiReturned None])
     /\ pend s' = pend s /\ next_id s' = idgen_next (next_id s) /\ done s' = done s /\ issued s' = issued s.
 Proof.
-  intros. unfold step. rewrite H. simpl. rewrite H1. unfold send. simpl. rewrite H0. simpl.
+  intros. unfold step, api_step. rewrite H. simpl. rewrite H1. unfold send. simpl. rewrite H0. simpl.
   eexists. split; [reflexivity|]. simpl. repeat split; reflexivity.
 Qed.
 
@@ -1115,7 +1165,7 @@ Theorem subscribe_one_message : forall fl cfg s uri o, transport s = true -> top
     (fun id => MSubscribe id uri (match o with Some c => opt_default (so_match c) | None => 0 end)
                           (match o with Some c => so_get_retained c | None => None end)).
 Proof.
-  intros. unfold sends_one, step. rewrite H. simpl. unfold send. simpl. rewrite H0. simpl.
+  intros. unfold sends_one, step, api_step. rewrite H. simpl. unfold send. simpl. rewrite H0. simpl.
   eexists. split; [reflexivity|]. simpl. repeat split; reflexivity.
 Qed.
 
@@ -1124,7 +1174,7 @@ Theorem register_one_message : forall fl cfg s uri o, transport s = true -> tope
     (fun id => MRegister id uri (match o with Some c => opt_default (ro_match c) | None => 0 end)
                          (match o with Some c => opt_default (ro_invoke c) | None => 0 end)).
 Proof.
-  intros. unfold sends_one, step. rewrite H. simpl. unfold send. simpl. rewrite H0. simpl.
+  intros. unfold sends_one, step, api_step. rewrite H. simpl. unfold send. simpl. rewrite H0. simpl.
   eexists. split; [reflexivity|]. simpl. repeat split; reflexivity.
 Qed.
 
@@ -1133,7 +1183,7 @@ Theorem unsubscribe_one_message : forall fl cfg s h subid, transport s = true ->
   sub_id_of s h = Some subid -> assoc subid (subs s) = Some [h] ->
   sends_one fl cfg s (AUnsubscribe h) KUnsubscribe None subid (fun id => MUnsubscribe id subid).
 Proof.
-  intros. unfold sends_one, step. rewrite H1, H2. simpl. rewrite N.eqb_refl. simpl. rewrite H. simpl.
+  intros. unfold sends_one, step, api_step. rewrite H1, H2. simpl. rewrite N.eqb_refl. simpl. rewrite H. simpl.
   unfold send. simpl. rewrite H0. simpl.
   eexists. split; [reflexivity|]. simpl. repeat split; reflexivity.
 Qed.
@@ -1142,7 +1192,7 @@ Theorem unregister_one_message : forall fl cfg s h regid, transport s = true -> 
   reg_id_of s h = Some regid -> assoc regid (regs s) = Some h ->
   sends_one fl cfg s (AUnregister h) KUnregister None regid (fun id => MUnregister id regid).
 Proof.
-  intros. unfold sends_one, step. rewrite H1, H2. rewrite N.eqb_refl. simpl. rewrite H. simpl.
+  intros. unfold sends_one, step, api_step. rewrite H1, H2. rewrite N.eqb_refl. simpl. rewrite H. simpl.
   unfold send. simpl. rewrite H0. simpl.
   eexists. split; [reflexivity|]. simpl. repeat split; reflexivity.
 Qed.
@@ -1196,204 +1246,13 @@ Proof.
   intros fl cfg s o v Ht Hs [Hh| ->]; [destruct o; simpl in Hh; try discriminate|]; unfold step; rewrite Ht, Hs; reflexivity.
 Qed.
 
-(* --- errback of everything: tables empty, only errors handed out --- *)
-Lemma complete_pend : forall fl s f r, pend (fst (complete fl s f r)) = pend s.
-Proof. intros. unfold complete. destruct (is_done s f); [reflexivity|]. destruct fl; reflexivity. Qed.
-
-Lemma complete_done_cases : forall fl s f r x y,
-  In (x, y) (done (fst (complete fl s f r))) -> In (x, y) (done s) \/ (x = f /\ y = r).
-Proof.
-  intros fl s f r x y. unfold complete. destruct (is_done s f); [simpl; auto|].
-  destruct fl; simpl; intro H; apply in_app_or in H; destruct H as [H|[H|[]]]; auto; inversion H; auto.
-Qed.
-
-Lemma errback_list_pend : forall fl e l s, pend (fst (errback_list fl s e l)) = pend s.
-Proof.
-  induction l as [|r t IH]; simpl; intro s; [reflexivity|].
-  pose proof (complete_pend fl s (r_fut r) (RErr e)) as H1.
-  destruct (complete fl s (r_fut r) (RErr e)) as [s1 o1]. specialize (IH s1).
-  destruct (errback_list fl s1 e t) as [s2 o2]. simpl in *. congruence.
-Qed.
-
-Lemma errback_list_done : forall fl e l s x y,
-  In (x, y) (done (fst (errback_list fl s e l))) -> In (x, y) (done s) \/ y = RErr e.
-Proof.
-  induction l as [|r t IH]; simpl; intros s x y H; [now left|].
-  pose proof (complete_done_cases fl s (r_fut r) (RErr e) x y) as H1.
-  destruct (complete fl s (r_fut r) (RErr e)) as [s1 o1]. specialize (IH s1 x y).
-  destruct (errback_list fl s1 e t) as [s2 o2]. simpl in *.
-  destruct (IH H) as [H2|H2]; [|now right]. destruct (H1 H2) as [H3|[_ H3]]; auto.
-Qed.
-
-Lemma errback_all_pend : forall fl s e, pend (fst (errback_all fl s e)) = [].
-Proof. intros. unfold errback_all. rewrite errback_list_pend. reflexivity. Qed.
-
-Lemma errback_all_done : forall fl s e x y,
-  In (x, y) (done (fst (errback_all fl s e))) -> In (x, y) (done s) \/ y = RErr e.
-Proof. intros fl s e x y H. unfold errback_all in H. apply errback_list_done in H. exact H. Qed.
-
-Lemma run_leaf_pend_done : forall fl cfg s l,
-  pend (fst (run_leaf fl cfg s l)) = pend s /\ done (fst (run_leaf fl cfg s l)) = done s.
-Proof.
-  intros. pose proof (run_leaf_ledger fl cfg s l) as H. unfold ledger in H. inversion H. auto.
-Qed.
-
-Lemma defer_leaf_pend_done : forall fl cfg s l,
-  pend (fst (defer_leaf fl cfg s l)) = pend s /\ done (fst (defer_leaf fl cfg s l)) = done s.
-Proof.
-  intros. pose proof (defer_leaf_ledger fl cfg s l) as H. unfold ledger in H. inversion H. auto.
-Qed.
-
-(* the default onLeave / onDisconnect leave nothing in the tables and hand out only errors *)
-Theorem onLeave_clears : forall fl cfg s rs,
-  u_leave_super cfg = true ->
-  let s' := fst (fst (do_onLeave fl cfg s rs)) in
-  pend s' = [] /\ forall x y, In (x, y) (done s') -> In (x, y) (done s) \/ y = RErr (ELeave rs).
-Proof.
-  intros fl cfg s rs Hsup. unfold do_onLeave. rewrite Hsup.
-  pose proof (errback_all_pend fl s (ELeave rs)) as Hp. pose proof (errback_all_done fl s (ELeave rs)) as Hd.
-  destruct (errback_all fl s (ELeave rs)) as [s1 o1].
-  destruct (defer_leaf_pend_done fl cfg s1 LLeaveDisconnect) as [Hp2 Hd2].
-  destruct (defer_leaf fl cfg s1 LLeaveDisconnect) as [s2 o2]. simpl in *.
-  split; [congruence|]. intros x y H. rewrite Hd2 in H. now apply Hd.
-Qed.
-
-Theorem onDisconnect_clears : forall fl cfg s,
-  u_disc_super cfg = true ->
-  let s' := fst (fst (do_onDisconnect fl cfg s)) in
-  pend s' = [] /\ forall x y, In (x, y) (done s') -> In (x, y) (done s) \/ y = RErr ETransportLost.
-Proof.
-  intros fl cfg s Hsup. unfold do_onDisconnect. rewrite Hsup.
-  pose proof (errback_all_pend fl s ETransportLost) as Hp. pose proof (errback_all_done fl s ETransportLost) as Hd.
-  destruct (errback_all fl s ETransportLost) as [s1 o1]. simpl in *. split; assumption.
-Qed.
-
-Lemma do_onLeave_done_mono : forall fl cfg s rs x y,
-  In (x, y) (done (fst (fst (do_onLeave fl cfg s rs)))) -> In (x, y) (done s) \/ y = RErr (ELeave rs).
-Proof.
-  intros fl cfg s rs x y H. destruct (u_leave_super cfg) eqn:E.
-  - now apply (proj2 (onLeave_clears fl cfg s rs E)).
-  - unfold do_onLeave in H. rewrite E in H. now left.
-Qed.
-
-(* session ended by the router's GOODBYE *)
-Theorem goodbye_ends : forall fl cfg s v rs,
-  transport s = true -> sid s = Some v -> (goodbye_sent s = true \/ topen s = true) ->
-  let '(s', outs) := step fl cfg s (RGoodbye rs) in
-  sid s' = None
-  /\ (goodbye_sent s = false -> exists t, outs = Sent (MGoodbye RsNormal) :: Called (CbLeave rs None) :: t)
-  /\ (goodbye_sent s = true -> exists t, outs = Called (CbLeave rs None) :: t)
-  /\ (u_leave_super cfg = true ->
-        pend s' = [] /\ forall x y, In (x, y) (done s') -> In (x, y) (done s) \/ y = RErr (ELeave rs)).
-Proof.
-  intros fl cfg s v rs Ht Hs Hg. unfold step. rewrite Ht, Hs. simpl.
-  assert (Hsend : (if goodbye_sent s then ([], true) else send cfg s (MGoodbye RsNormal)) =
-                  (if goodbye_sent s then [] else [Sent (MGoodbye RsNormal)], true)).
-  { destruct (goodbye_sent s); [reflexivity|]. destruct Hg as [Hg|Hg]; [discriminate|]. now apply send_open. }
-  rewrite Hsend.
-  pose proof (onLeave_clears fl cfg (set_sid s None) rs) as Hc.
-  assert (Hsid : sid (fst (fst (do_onLeave fl cfg (set_sid s None) rs))) = None).
-  { unfold do_onLeave. destruct (u_leave_super cfg); [|reflexivity].
-    destruct (errback_all fl (set_sid s None) (ELeave rs)) as [s1 o1] eqn:E1.
-    assert (sid s1 = None).
-    { clear - E1. unfold errback_all in E1.
-      assert (Hgen : forall l s0 s2 o2, errback_list fl s0 (ELeave rs) l = (s2, o2) -> sid s2 = sid s0).
-      { induction l as [|r t IH]; simpl; intros s0 s2 o2 H; [inversion H; reflexivity|].
-        destruct (complete fl s0 (r_fut r) (RErr (ELeave rs))) as [sa oa] eqn:Ea.
-        destruct (errback_list fl sa (ELeave rs) t) as [sb ob] eqn:Eb. inversion H; subst.
-        rewrite (IH _ _ _ Eb). unfold complete in Ea. destruct (is_done s0 (r_fut r)); [inversion Ea; reflexivity|].
-        destruct fl; inversion Ea; reflexivity. }
-      rewrite (Hgen _ _ _ _ E1). reflexivity. }
-    destruct fl; simpl; [destruct (transport s1); simpl; assumption | assumption]. }
-  assert (Hhead : exists t, snd (fst (do_onLeave fl cfg (set_sid s None) rs)) = Called (CbLeave rs None) :: t).
-  { unfold do_onLeave. destruct (u_leave_super cfg); [|eexists; reflexivity].
-    destruct (errback_all fl (set_sid s None) (ELeave rs)) as [s1 o1].
-    destruct (defer_leaf fl cfg s1 LLeaveDisconnect) as [s2 o2]. simpl. eexists; reflexivity. }
-  destruct (do_onLeave fl cfg (set_sid s None) rs) as [[s2 o2] raised]. simpl in *.
-  destruct Hhead as [t Ht2]. subst o2.
-  assert (Hleaf : forall b, sid (fst (defer_leaf fl cfg s2 (LLeaveK b))) = sid s2
-                            /\ pend (fst (defer_leaf fl cfg s2 (LLeaveK b))) = pend s2
-                            /\ done (fst (defer_leaf fl cfg s2 (LLeaveK b))) = done s2).
-  { intro b. destruct fl; simpl; auto. }
-  destruct (Hleaf raised) as [L1 [L2 L3]].
-  destruct (defer_leaf fl cfg s2 (LLeaveK raised)) as [s3 o3]. simpl in *.
-  repeat split.
-  - congruence.
-  - intro Hgs. rewrite Hgs. simpl. eexists; reflexivity.
-  - intro Hgs. rewrite Hgs. simpl. eexists; reflexivity.
-  - rewrite L2. now apply Hc.
-  - intros x y Hin. rewrite L3 in Hin. destruct (Hc H) as [_ Hd]. now apply Hd.
-Qed.
-
-(* transport loss: nothing stays pending when the user's onDisconnect reaches the default *)
-Theorem lost_clears : forall fl cfg s clean,
-  transport s = true -> u_disc_super cfg = true ->
-  let s' := fst (step fl cfg s (OLost clean)) in
-  transport s' = false /\ pend s' = []
-  /\ forall x y, In (x, y) (done s') -> In (x, y) (done s) \/ y = RErr (ELeave RsTransportLost) \/ y = RErr ETransportLost.
-Proof.
-  intros fl cfg s clean Ht Hsup. unfold step. rewrite Ht. simpl.
-  set (s0 := set_conn s (opened s) false false).
-  assert (H3 : let s3 := fst (if sid_truthy s0
-                 then let '(s1, o1, raised) := do_onLeave fl cfg s0 RsTransportLost in
-                      let '(s2, o2) := defer_leaf fl cfg s1 (LLeaveK raised) in (set_sid s2 None, o1 ++ o2)
-                 else (s0, [])) in
-             transport s3 = false /\ forall x y, In (x, y) (done s3) -> In (x, y) (done s) \/ y = RErr (ELeave RsTransportLost)).
-  { destruct (sid_truthy s0); [|simpl; auto].
-    pose proof (do_onLeave_done_mono fl cfg s0 RsTransportLost) as Hd.
-    assert (Htr : transport (fst (fst (do_onLeave fl cfg s0 RsTransportLost))) = false).
-    { unfold do_onLeave. destruct (u_leave_super cfg); [|reflexivity].
-      destruct (errback_all fl s0 (ELeave RsTransportLost)) as [s1 o1] eqn:E1.
-      assert (transport s1 = false).
-      { clear - E1. unfold errback_all in E1.
-        assert (Hgen : forall l sa sb ob, errback_list fl sa (ELeave RsTransportLost) l = (sb, ob) -> transport sb = transport sa).
-        { induction l as [|r t IH]; simpl; intros sa sb ob H; [inversion H; reflexivity|].
-          destruct (complete fl sa (r_fut r) (RErr (ELeave RsTransportLost))) as [sc oc] eqn:Ec.
-          destruct (errback_list fl sc (ELeave RsTransportLost) t) as [sd od] eqn:Ed. inversion H; subst.
-          rewrite (IH _ _ _ Ed). unfold complete in Ec. destruct (is_done sa (r_fut r)); [inversion Ec; reflexivity|].
-          destruct fl; inversion Ec; reflexivity. }
-        rewrite (Hgen _ _ _ _ E1). reflexivity. }
-      destruct fl; simpl; [rewrite H; simpl; assumption | assumption]. }
-    destruct (do_onLeave fl cfg s0 RsTransportLost) as [[s1 o1] raised]. simpl in *.
-    assert (Hleaf : transport (fst (defer_leaf fl cfg s1 (LLeaveK raised))) = transport s1
-                    /\ done (fst (defer_leaf fl cfg s1 (LLeaveK raised))) = done s1).
-    { destruct fl; simpl; auto. }
-    destruct Hleaf as [L1 L2]. destruct (defer_leaf fl cfg s1 (LLeaveK raised)) as [s2 o2]. simpl in *.
-    split; [congruence|]. intros x y Hin. rewrite L2 in Hin. now apply Hd. }
-  destruct (if sid_truthy s0
-            then let '(s1, o1, raised) := do_onLeave fl cfg s0 RsTransportLost in
-                 let '(s2, o2) := defer_leaf fl cfg s1 (LLeaveK raised) in (set_sid s2 None, o1 ++ o2)
-            else (s0, [])) as [s3 o3]. simpl in H3. destruct H3 as [Htr3 Hd3].
-  pose proof (onDisconnect_clears fl cfg s3 Hsup) as [Hp4 Hd4].
-  assert (Htr4 : transport (fst (fst (do_onDisconnect fl cfg s3))) = false).
-  { unfold do_onDisconnect. rewrite Hsup.
-    destruct (errback_all fl s3 ETransportLost) as [s4 o4] eqn:E4. simpl.
-    clear - E4 Htr3. unfold errback_all in E4.
-    assert (Hgen : forall l sa sb ob, errback_list fl sa ETransportLost l = (sb, ob) -> transport sb = transport sa).
-    { induction l as [|r t IH]; simpl; intros sa sb ob H; [inversion H; reflexivity|].
-      destruct (complete fl sa (r_fut r) (RErr ETransportLost)) as [sc oc] eqn:Ec.
-      destruct (errback_list fl sc ETransportLost t) as [sd od] eqn:Ed. inversion H; subst.
-      rewrite (IH _ _ _ Ed). unfold complete in Ec. destruct (is_done sa (r_fut r)); [inversion Ec; reflexivity|].
-      destruct fl; inversion Ec; reflexivity. }
-    rewrite (Hgen _ _ _ _ E4). exact Htr3. }
-  destruct (do_onDisconnect fl cfg s3) as [[s4 o4] raised]. simpl in *.
-  assert (Hleaf : transport (fst (defer_leaf fl cfg s4 (LDiscK raised))) = transport s4
-                  /\ pend (fst (defer_leaf fl cfg s4 (LDiscK raised))) = pend s4
-                  /\ done (fst (defer_leaf fl cfg s4 (LDiscK raised))) = done s4).
-  { destruct fl; simpl; auto. }
-  destruct Hleaf as [L1 [L2 L3]]. destruct (defer_leaf fl cfg s4 (LDiscK raised)) as [s5 o5]. simpl in *.
-  repeat split; try congruence.
-  intros x y Hin. rewrite L3 in Hin. destruct (Hd4 x y Hin) as [H|H]; [|auto].
-  destruct (Hd3 x y H); auto.
-Qed.
-
 (* API calls once the transport is gone: they raise at once, nothing is recorded *)
 Definition is_request_api (o : op) : bool :=
   match o with ACall _ _ _ _ | APublish _ _ _ _ | ASubscribe _ _ | ARegister _ _ => true | _ => false end.
 
 Theorem api_after_lost : forall fl cfg s o,
   transport s = false -> is_request_api o = true -> step fl cfg s o = (s, [ApiRaised XTransportLost]).
-Proof. intros fl cfg s o Ht Ha. destruct o; try discriminate; unfold step; rewrite Ht; reflexivity. Qed.
+Proof. intros fl cfg s o Ht Ha. destruct o; try discriminate; unfold step, api_step; rewrite Ht; reflexivity. Qed.
 
 Theorem api_after_lost_objects : forall fl cfg s h,
   transport s = false ->
@@ -1403,7 +1262,7 @@ Proof.
   intros fl cfg s h Ht. split; unfold step.
   - destruct (sub_id_of s h); [|eexists; reflexivity].
     destruct (negb (memN h _)); [eexists; reflexivity|]. rewrite Ht. eexists; reflexivity.
-  - destruct (reg_id_of s h); [|eexists; reflexivity]. destruct (assoc n (regs s)); [|eexists; reflexivity].
+  - unfold api_step. destruct (reg_id_of s h); [|eexists; reflexivity]. destruct (assoc n (regs s)); [|eexists; reflexivity].
     destruct (negb (n0 =? h)); [eexists; reflexivity|]. rewrite Ht. eexists; reflexivity.
 Qed.
 
@@ -1414,7 +1273,7 @@ Theorem api_after_close : forall fl cfg s uri a kw o,
   exists s' m, step fl cfg s (ACall uri a kw o) = (s', [SendFailed m; ApiRaised XTransportLost])
                /\ (forall r, In r (pend s') -> In r (pend s)) /\ done s' = done s.
 Proof.
-  intros fl cfg s uri a kw o Ht Ho Hw. unfold step. rewrite Ht. simpl. unfold send. simpl. rewrite Ho, Hw. simpl.
+  intros fl cfg s uri a kw o Ht Ho Hw. unfold step, api_step. rewrite Ht. simpl. unfold send. simpl. rewrite Ho, Hw. simpl.
   eexists. eexists. split; [reflexivity|]. simpl. split; [|reflexivity].
   intros r Hr.
   assert (Hsub : forall x l z, In z (remove_req (r_kind x) (r_id x) (put_req x l)) -> In z l).
@@ -1444,201 +1303,37 @@ Definition request_ids (t : list out) : list N :=
 Lemma request_ids_app : forall a b, request_ids (a ++ b) = request_ids a ++ request_ids b.
 Proof. intros. unfold request_ids. apply flat_map_app. Qed.
 
-Definition NR (s s' : sess) (o : list out) : Prop := request_ids o = [] /\ next_id s' = next_id s.
+(* the ids of the request messages of [o] are the successive values of the generator, from the state of [s] to the
+   state of [s'] *)
+Fixpoint id_chain (n : N) (l : list N) : option N :=
+  match l with [] => Some n | i :: t => if i =? idgen_next n then id_chain i t else None end.
+Definition NR (s s' : sess) (o : list out) : Prop := id_chain (next_id s) (request_ids o) = Some (next_id s').
+
+Lemma id_chain_app : forall a b n, id_chain n (a ++ b) = match id_chain n a with Some m => id_chain m b | None => None end.
+Proof. induction a as [|i t IH]; simpl; intros b n; [reflexivity|]. destruct (i =? idgen_next n); [apply IH | reflexivity]. Qed.
 
 Lemma NR_refl : forall s, NR s s [].
-Proof. split; reflexivity. Qed.
+Proof. reflexivity. Qed.
+
+Lemma NR_quiet : forall s s' o, request_ids o = [] -> next_id s' = next_id s -> NR s s' o.
+Proof. intros s s' o A B. unfold NR. rewrite A, B. reflexivity. Qed.
 
 Lemma NR_trans : forall s s1 s2 o1 o2, NR s s1 o1 -> NR s1 s2 o2 -> NR s s2 (o1 ++ o2).
-Proof. intros s s1 s2 o1 o2 [A1 B1] [A2 B2]. split; [rewrite request_ids_app, A1, A2; reflexivity | congruence]. Qed.
+Proof. unfold NR. intros s s1 s2 o1 o2 A B. rewrite request_ids_app, id_chain_app, A. exact B. Qed.
 
 Lemma NR_out : forall s s1 o1 o2, NR s s1 o1 -> request_ids o2 = [] -> NR s s1 (o2 ++ o1).
-Proof. intros s s1 o1 o2 [A B] C. split; [rewrite request_ids_app, A, C; reflexivity | assumption]. Qed.
+Proof. unfold NR. intros s s1 o1 o2 A C. rewrite request_ids_app, C. exact A. Qed.
+
+Lemma NR_out_r : forall s s1 o1 o2, NR s s1 o1 -> request_ids o2 = [] -> NR s s1 (o1 ++ o2).
+Proof. unfold NR. intros s s1 o1 o2 A C. rewrite request_ids_app, C, app_nil_r. exact A. Qed.
+
+Lemma NR_from : forall s s0 s' o, next_id s0 = next_id s -> NR s0 s' o -> NR s s' o.
+Proof. unfold NR. intros s s0 s' o E H. rewrite <- E. exact H. Qed.
 
 Lemma send_nr : forall cfg s m, req_id_of_msg m = None -> request_ids (fst (send cfg s m)) = [].
 Proof.
   intros cfg s m H. unfold send. destruct (topen s); [|destruct (t_lenient cfg && transport s)]; simpl; rewrite H; reflexivity.
 Qed.
-
-Lemma NR_complete : forall fl s f r, NR s (fst (complete fl s f r)) (snd (complete fl s f r)).
-Proof. intros. unfold complete. destruct (is_done s f); [apply NR_refl|]. destruct fl; split; reflexivity. Qed.
-
-Lemma NR_errback_list : forall fl e l s, NR s (fst (errback_list fl s e l)) (snd (errback_list fl s e l)).
-Proof.
-  induction l as [|r t IH]; simpl; intro s; [apply NR_refl|].
-  pose proof (NR_complete fl s (r_fut r) (RErr e)) as H1. destruct (complete fl s (r_fut r) (RErr e)) as [s1 o1].
-  specialize (IH s1). destruct (errback_list fl s1 e t) as [s2 o2]. simpl in *. eapply NR_trans; eassumption.
-Qed.
-
-Lemma NR_errback_all : forall fl s e, NR s (fst (errback_all fl s e)) (snd (errback_all fl s e)).
-Proof.
-  intros. unfold errback_all. destruct (NR_errback_list fl e (outstanding (pend s)) (set_pend s [])) as [A B].
-  split; [assumption | rewrite B; reflexivity].
-Qed.
-
-Lemma NR_run_leaf : forall fl cfg s l, NR s (fst (run_leaf fl cfg s l)) (snd (run_leaf fl cfg s l)).
-Proof.
-  intros fl cfg s l. destruct l; simpl.
-  - split; reflexivity.
-  - destruct (sdetails s); [|apply NR_refl]. destruct (u_join_raises cfg); [destruct fl|]; split; reflexivity.
-  - destruct raised; split; reflexivity.
-  - destruct (transport s); split; reflexivity.
-  - destruct raised; split; reflexivity.
-  - destruct (transport s); [|split; reflexivity].
-    pose proof (send_nr cfg s (MCancel id) eq_refl) as Hs. destruct (send cfg s (MCancel id)) as [o ok]. simpl in *.
-    split; [rewrite request_ids_app, Hs; destruct ok; reflexivity | reflexivity].
-  - destruct (transport s); [|split; reflexivity].
-    pose proof (send_nr cfg (set_invs s (remove1 rq (invs s))) (MYield rq) eq_refl) as Hs.
-    destruct (send cfg (set_invs s (remove1 rq (invs s))) (MYield rq)) as [o ok]. simpl in *.
-    split; [rewrite request_ids_app, Hs; destruct ok; [|destruct fl]; reflexivity | reflexivity].
-Qed.
-
-Lemma NR_defer_leaf : forall fl cfg s l, NR s (fst (defer_leaf fl cfg s l)) (snd (defer_leaf fl cfg s l)).
-Proof. intros. destruct fl; simpl; [apply NR_run_leaf | split; reflexivity]. Qed.
-
-Lemma NR_do_onLeave : forall fl cfg s rs,
-  NR s (fst (fst (do_onLeave fl cfg s rs))) (snd (fst (do_onLeave fl cfg s rs))).
-Proof.
-  intros. unfold do_onLeave. destruct (u_leave_super cfg); [|split; reflexivity].
-  pose proof (NR_errback_all fl s (ELeave rs)) as H1. destruct (errback_all fl s (ELeave rs)) as [s1 o1].
-  pose proof (NR_defer_leaf fl cfg s1 LLeaveDisconnect) as H2. destruct (defer_leaf fl cfg s1 LLeaveDisconnect) as [s2 o2].
-  simpl in *. apply (NR_out s s2 (o1 ++ o2) [Called (CbLeave rs (sid s))]); [eapply NR_trans; eassumption | reflexivity].
-Qed.
-
-Lemma NR_do_onDisconnect : forall fl cfg s,
-  NR s (fst (fst (do_onDisconnect fl cfg s))) (snd (fst (do_onDisconnect fl cfg s))).
-Proof.
-  intros. unfold do_onDisconnect. destruct (u_disc_super cfg); [|split; reflexivity].
-  pose proof (NR_errback_all fl s ETransportLost) as H1. destruct (errback_all fl s ETransportLost) as [s1 o1].
-  simpl in *. apply (NR_out s s1 o1 [Called CbDisconnect]); [assumption | reflexivity].
-Qed.
-
-Lemma NR_leave_then : forall fl cfg s rs,
-  let r := (let '(s2, o2, raised) := do_onLeave fl cfg s rs in
-            let '(s3, o3) := defer_leaf fl cfg s2 (LLeaveK raised) in (s3, o2 ++ o3)) in
-  NR s (fst r) (snd r).
-Proof.
-  intros fl cfg s rs. pose proof (NR_do_onLeave fl cfg s rs) as H1.
-  destruct (do_onLeave fl cfg s rs) as [[s2 o2] raised]. simpl in H1.
-  pose proof (NR_defer_leaf fl cfg s2 (LLeaveK raised)) as H2. destruct (defer_leaf fl cfg s2 (LLeaveK raised)) as [s3 o3].
-  simpl in *. eapply NR_trans; eassumption.
-Qed.
-
-Lemma NR_challenge_failed : forall fl cfg s, NR s (fst (challenge_failed fl cfg s)) (snd (challenge_failed fl cfg s)).
-Proof.
-  intros. unfold challenge_failed. destruct (transport s); [|destruct fl; split; reflexivity].
-  pose proof (send_nr cfg s (MAbort RsCannotAuth) eq_refl) as Hs. destruct (send cfg s (MAbort RsCannotAuth)) as [o1 ok].
-  simpl in Hs. destruct ok.
-  - pose proof (NR_leave_then fl cfg s RsCannotAuth) as H1.
-    destruct (do_onLeave fl cfg s RsCannotAuth) as [[s2 o2] raised].
-    destruct (defer_leaf fl cfg s2 (LLeaveK raised)) as [s3 o3]. simpl in *.
-    destruct H1 as [A B]. split; [|assumption].
-    change (UserError :: o1 ++ o2 ++ o3) with ([UserError] ++ o1 ++ (o2 ++ o3)).
-    rewrite request_ids_app, (request_ids_app o1 (o2 ++ o3)), Hs, A. reflexivity.
-  - simpl. split; [|reflexivity]. change (UserError :: o1 ++ ?x) with ([UserError] ++ o1 ++ x).
-    destruct fl; simpl; rewrite request_ids_app, Hs; reflexivity.
-Qed.
-
-Lemma NR_run_thunk : forall fl cfg s t, NR s (fst (run_thunk fl cfg s t)) (snd (run_thunk fl cfg s t)).
-Proof.
-  intros fl cfg s t. destruct t as [l| |o sidv|o]; simpl.
-  - apply NR_run_leaf.
-  - destruct (u_connect cfg); [|split; reflexivity]. destruct (sid_truthy s); [split; reflexivity|].
-    destruct (negb (transport s)); [split; reflexivity|].
-    pose proof (send_nr cfg (set_goodbye s false) MHello eq_refl) as Hs.
-    destruct (send cfg (set_goodbye s false) MHello) as [o ok]. simpl in *. split; [assumption | reflexivity].
-  - destruct o.
-    + destruct (transport s).
-      * pose proof (NR_defer_leaf fl cfg (set_sdetails (set_sid s (Some sidv)) (Some sidv)) LJoin) as [A B].
-        split; [assumption | rewrite B; reflexivity].
-      * destruct fl; split; reflexivity.
-    + destruct (transport s); [|destruct fl; split; reflexivity].
-      pose proof (send_nr cfg s (MAbort RsCannotAuth) eq_refl) as Hs. destruct (send cfg s (MAbort RsCannotAuth)) as [o1 ok].
-      simpl in *. split; [|reflexivity]. rewrite request_ids_app, Hs. destruct ok; [|destruct fl]; reflexivity.
-    + destruct (transport s); [|destruct fl; split; reflexivity].
-      pose proof (send_nr cfg s (MAbort RsCannotAuth) eq_refl) as Hs. destruct (send cfg s (MAbort RsCannotAuth)) as [o1 ok].
-      simpl in *. split; [|reflexivity]. rewrite request_ids_app, Hs. destruct ok; [|destruct fl]; reflexivity.
-  - destruct o.
-    + destruct (transport s).
-      * pose proof (send_nr cfg s MAuthenticate eq_refl) as Hs. destruct (send cfg s MAuthenticate) as [o1 ok]. simpl in Hs.
-        destruct ok; [split; [assumption | reflexivity]|].
-        destruct fl; [split; [assumption | reflexivity]|].
-        pose proof (NR_challenge_failed Aio cfg s) as H1. destruct (challenge_failed Aio cfg s) as [s2 o2]. simpl in *.
-        apply NR_out; assumption.
-      * destruct fl; [apply NR_refl | apply NR_challenge_failed].
-    + destruct fl; [apply NR_refl | apply NR_challenge_failed].
-    + apply NR_challenge_failed.
-Qed.
-
-Lemma NR_defer : forall fl cfg s t, NR s (fst (defer fl cfg s t)) (snd (defer fl cfg s t)).
-Proof. intros. destruct fl; simpl; [apply NR_run_thunk | split; reflexivity]. Qed.
-
-Lemma NR_run_queue : forall fl cfg q s, NR s (fst (run_queue fl cfg s q)) (snd (run_queue fl cfg s q)).
-Proof.
-  induction q as [|t r IH]; simpl; intro s; [apply NR_refl|].
-  pose proof (NR_run_thunk fl cfg s t) as H1. destruct (run_thunk fl cfg s t) as [s1 o1].
-  specialize (IH s1). destruct (run_queue fl cfg s1 r) as [s2 o2]. simpl in *. eapply NR_trans; eassumption.
-Qed.
-
-Lemma NR_pop_reply : forall s k rq found,
-  (forall r s1, next_id s1 = next_id s -> NR s (fst (found r s1)) (snd (found r s1))) ->
-  NR s (fst (pop_reply s k rq found)) (snd (pop_reply s k rq found)).
-Proof.
-  intros s k rq found H. unfold pop_reply. destruct (find_req k rq (pend s)); [|split; reflexivity].
-  destruct (is_done _ _); [split; reflexivity|]. apply H. reflexivity.
-Qed.
-
-Lemma NR_complete_from : forall fl s s1 f r, next_id s1 = next_id s ->
-  NR s (fst (complete fl s1 f r)) (snd (complete fl s1 f r)).
-Proof. intros fl s s1 f r H. destruct (NR_complete fl s1 f r) as [A B]. split; [assumption | congruence]. Qed.
-
-Lemma NR_established : forall fl cfg s o,
-  NR s (fst (on_message_established fl cfg s o)) (snd (on_message_established fl cfg s o)).
-Proof.
-  intros fl cfg s o. destruct o; simpl; try (split; reflexivity).
-  - assert (Hs : request_ids (fst (if goodbye_sent s then ([], true) else send cfg s (MGoodbye RsNormal))) = []).
-    { destruct (goodbye_sent s); [reflexivity | now apply send_nr]. }
-    destruct (if goodbye_sent s then ([], true) else send cfg s (MGoodbye RsNormal)) as [o1 ok]. simpl in Hs.
-    destruct ok.
-    + pose proof (NR_leave_then fl cfg (set_sid s None) r) as H1.
-      destruct (do_onLeave fl cfg (set_sid s None) r) as [[s2 o2] raised].
-      destruct (defer_leaf fl cfg s2 (LLeaveK raised)) as [s3 o3]. simpl in *. destruct H1 as [A B].
-      split; [|exact B]. rewrite request_ids_app, Hs. exact A.
-    + simpl. split; [rewrite request_ids_app, Hs; reflexivity | reflexivity].
-  - apply NR_pop_reply. intros. now apply NR_complete_from.
-  - apply NR_pop_reply. intros. now apply NR_complete_from.
-  - apply NR_pop_reply. intros. now apply NR_complete_from.
-  - destruct (find_req KCall rq (pend s)) as [r|]; [|split; reflexivity]. destruct progress.
-    + destruct (r_opts r) as [c|]; [|split; reflexivity]. destruct (co_progress c); split; reflexivity.
-    + destruct (is_done _ _); [split; reflexivity|]. now apply NR_complete_from.
-  - apply NR_pop_reply. intros r s1 Hn. destruct (assoc regid (regs s1)); [split; [reflexivity | exact Hn]|].
-    now apply NR_complete_from.
-  - destruct (rq =? 0).
-    + destruct regid as [g|]; [destruct (assoc g (regs s))|]; split; reflexivity.
-    + apply NR_pop_reply. intros. now apply NR_complete_from.
-  - destruct (kind_of_code rtype) as [k|]; [|split; reflexivity].
-    destruct (find_req k rq (pend s)); [|split; reflexivity]. now apply NR_complete_from.
-  - destruct (assoc subid (subs s)); split; reflexivity.
-  - destruct (memN rq (invs s)); [split; reflexivity|]. destruct (assoc regid (regs s)); [|split; reflexivity].
-    destruct (NR_defer_leaf fl cfg (set_invs s (invs s ++ [rq])) (LYield rq)) as [A B]. split; [assumption | rewrite B; reflexivity].
-Qed.
-
-Lemma NR_unjoined : forall fl cfg s o,
-  NR s (fst (on_message_unjoined fl cfg s o)) (snd (on_message_unjoined fl cfg s o)).
-Proof.
-  intros fl cfg s o. destruct o; simpl; try (split; reflexivity).
-  - pose proof (NR_defer fl cfg s (TWelcomeK (u_welcome cfg) sidv)) as H1.
-    destruct (defer fl cfg s (TWelcomeK (u_welcome cfg) sidv)) as [s1 o1]. simpl in *.
-    apply (NR_out s s1 o1 [Called CbWelcome]); [assumption | reflexivity].
-  - apply NR_leave_then.
-  - pose proof (NR_defer fl cfg s (TChallengeK (u_challenge cfg))) as H1.
-    destruct (defer fl cfg s (TChallengeK (u_challenge cfg))) as [s1 o1]. simpl in *.
-    apply (NR_out s s1 o1 [Called CbChallenge]); [assumption | reflexivity].
-Qed.
-
-(* one step: either no request message and the generator untouched, or exactly one, carrying the next value *)
-Definition step_ids (s s' : sess) (o : list out) : Prop :=
-  NR s s' o \/ (request_ids o = [idgen_next (next_id s)] /\ next_id s' = idgen_next (next_id s)).
 
 Lemma new_request_sent_ids : forall cfg s k co t (mk : N -> wmsg) (keep : bool) tail_ok tail_bad,
   (forall id, req_id_of_msg (mk id) = Some id) -> request_ids tail_ok = [] -> request_ids tail_bad = [] ->
@@ -1655,28 +1350,252 @@ Proof.
     try (split; reflexivity); destruct keep; split; reflexivity.
 Qed.
 
-Theorem step_step_ids : forall fl cfg s o, step_ids s (fst (step fl cfg s o)) (snd (step fl cfg s o)).
+Lemma NR_one : forall s s' o, request_ids o = [idgen_next (next_id s)] -> next_id s' = idgen_next (next_id s) -> NR s s' o.
+Proof. intros s s' o A B. unfold NR. rewrite A, B. simpl. rewrite N.eqb_refl. reflexivity. Qed.
+
+Lemma NR_api_step : forall cfg s o, NR s (fst (api_step cfg s o)) (snd (api_step cfg s o)).
+Proof.
+  intros cfg s o. destruct o; try apply NR_refl; unfold api_step.
+  - destruct (negb (transport s)); [apply NR_quiet; reflexivity|].
+    destruct (new_request_sent_ids cfg s KCall o uri
+             (fun id => MCall id uri a kw match o with Some c => co_timeout c | None => None end
+                              match o with Some c => co_progress c | None => false end)
+             false [ApiReturned (Some (next_fut s))] [ApiRaised XTransportLost] (fun _ => eq_refl) eq_refl eq_refl) as [A B].
+    now apply NR_one.
+  - destruct (negb (transport s)); [apply NR_quiet; reflexivity|]. destruct (po_wants_ack o).
+    + destruct (new_request_sent_ids cfg s KPublish None uri
+               (fun id => MPublish id uri a kw match o with Some p => po_ack p | None => None end
+                                   match o with Some p => po_exclude_me p | None => None end)
+               false [ApiReturned (Some (next_fut s))] [ApiRaised XTransportLost] (fun _ => eq_refl) eq_refl eq_refl) as [A B].
+      now apply NR_one.
+    + unfold new_id_only, send. cbn [topen transport set_newreq].
+      destruct (topen s); [|destruct (t_lenient cfg && transport s)]; apply NR_one; reflexivity.
+  - destruct (negb (transport s)); [apply NR_quiet; reflexivity|].
+    pose proof (new_request_sent_ids cfg s KSubscribe None uri
+             (fun id => MSubscribe id uri match o with Some c => opt_default (so_match c) | None => 0 end
+                                   match o with Some c => so_get_retained c | None => None end)
+             true [ApiReturned (Some (next_fut s))] [ApiRaised XTransportLost] (fun _ => eq_refl) eq_refl eq_refl) as HR.
+    unfold new_request in *. cbv zeta beta iota in *. destruct (send cfg _ _) as [o1 ok].
+    destruct ok; destruct HR as [A B]; now apply NR_one.
+  - destruct (negb (transport s)); [apply NR_quiet; reflexivity|].
+    pose proof (new_request_sent_ids cfg s KRegister None uri
+             (fun id => MRegister id uri match o with Some c => opt_default (ro_match c) | None => 0 end
+                                  match o with Some c => opt_default (ro_invoke c) | None => 0 end)
+             true [ApiReturned (Some (next_fut s))] [ApiRaised XTransportLost] (fun _ => eq_refl) eq_refl eq_refl) as HR.
+    unfold new_request in *. cbv zeta beta iota in *. destruct (send cfg _ _) as [o1 ok].
+    destruct ok; destruct HR as [A B]; now apply NR_one.
+  - destruct (reg_id_of s h) as [regid|]; [|apply NR_quiet; reflexivity].
+    destruct (assoc regid (regs s)) as [h'|]; [|apply NR_quiet; reflexivity].
+    destruct (negb (h' =? h)); [apply NR_quiet; reflexivity|]. destruct (negb (transport s)); [apply NR_quiet; reflexivity|].
+    pose proof (new_request_sent_ids cfg s KUnregister None regid (fun id => MUnregister id regid)
+             true [ApiReturned (Some (next_fut s))] [ApiRaised XTransportLost] (fun _ => eq_refl) eq_refl eq_refl) as HR.
+    unfold new_request in *. cbv zeta beta iota in *. destruct (send cfg _ _) as [o1 ok].
+    destruct ok; destruct HR as [A B]; now apply NR_one.
+Qed.
+
+Lemma NR_react : forall cfg s f, NR s (fst (react cfg s f)) (snd (react cfg s f)).
+Proof. intros. unfold react. destruct (assoc f (reacts s)); [apply NR_api_step | apply NR_refl]. Qed.
+
+Lemma NR_complete : forall fl cfg s f r, NR s (fst (complete fl cfg s f r)) (snd (complete fl cfg s f r)).
+Proof.
+  intros. unfold complete. destruct (is_done s f); [apply NR_refl|]. destruct fl.
+  - pose proof (NR_react cfg (set_done s (done s ++ [(f, r)])) f) as H.
+    destruct (react cfg (set_done s (done s ++ [(f, r)])) f) as [s2 o2]. simpl in *.
+    apply (NR_out s s2 o2 [Completed f r]); [eapply NR_from; [|exact H]; reflexivity | reflexivity].
+  - apply NR_quiet; reflexivity.
+Qed.
+
+Lemma NR_errback_list : forall fl cfg e l s, NR s (fst (errback_list fl cfg s e l)) (snd (errback_list fl cfg s e l)).
+Proof.
+  induction l as [|r t IH]; simpl; intro s; [apply NR_refl|].
+  pose proof (NR_complete fl cfg s (r_fut r) (RErr e)) as H1. destruct (complete fl cfg s (r_fut r) (RErr e)) as [s1 o1].
+  specialize (IH s1). destruct (errback_list fl cfg s1 e t) as [s2 o2]. simpl in *. eapply NR_trans; eassumption.
+Qed.
+
+Lemma NR_errback_all : forall fl cfg s e, NR s (fst (errback_all fl cfg s e)) (snd (errback_all fl cfg s e)).
+Proof. intros. unfold errback_all. eapply NR_from; [|apply NR_errback_list]. reflexivity. Qed.
+
+Lemma NR_run_leaf : forall fl cfg s l, NR s (fst (run_leaf fl cfg s l)) (snd (run_leaf fl cfg s l)).
+Proof.
+  intros fl cfg s l. destruct l; simpl.
+  - pose proof (NR_react cfg s f) as H. destruct (react cfg s f) as [s2 o2]. simpl in *.
+    apply (NR_out s s2 o2 [Completed f r]); [exact H | reflexivity].
+  - destruct (sdetails s); [|apply NR_refl]. destruct (u_join_raises cfg); [destruct fl|]; apply NR_quiet; reflexivity.
+  - destruct raised; apply NR_quiet; reflexivity.
+  - destruct (transport s); apply NR_quiet; reflexivity.
+  - destruct raised; apply NR_quiet; reflexivity.
+  - destruct (transport s); [|apply NR_quiet; reflexivity].
+    pose proof (send_nr cfg s (MCancel id) eq_refl) as Hs. destruct (send cfg s (MCancel id)) as [o ok]. simpl in *.
+    apply NR_quiet; [rewrite request_ids_app, Hs; destruct ok; reflexivity | reflexivity].
+  - destruct (transport s); [|apply NR_quiet; reflexivity].
+    pose proof (send_nr cfg (set_invs s (remove1 rq (invs s))) (MYield rq) eq_refl) as Hs.
+    destruct (send cfg (set_invs s (remove1 rq (invs s))) (MYield rq)) as [o ok]. simpl in *.
+    apply NR_quiet; [rewrite request_ids_app, Hs; destruct ok; [|destruct fl]; reflexivity | reflexivity].
+Qed.
+
+Lemma NR_defer_leaf : forall fl cfg s l, NR s (fst (defer_leaf fl cfg s l)) (snd (defer_leaf fl cfg s l)).
+Proof. intros. destruct fl; simpl; [apply NR_run_leaf | apply NR_quiet; reflexivity]. Qed.
+
+Lemma NR_do_onLeave : forall fl cfg s rs,
+  NR s (fst (fst (do_onLeave fl cfg s rs))) (snd (fst (do_onLeave fl cfg s rs))).
+Proof.
+  intros. unfold do_onLeave. destruct (u_leave_super cfg); [|apply NR_quiet; reflexivity].
+  pose proof (NR_errback_all fl cfg s (ELeave rs)) as H1. destruct (errback_all fl cfg s (ELeave rs)) as [s1 o1].
+  pose proof (NR_defer_leaf fl cfg s1 LLeaveDisconnect) as H2. destruct (defer_leaf fl cfg s1 LLeaveDisconnect) as [s2 o2].
+  simpl in *. apply (NR_out s s2 (o1 ++ o2) [Called (CbLeave rs (sid s))]); [eapply NR_trans; eassumption | reflexivity].
+Qed.
+
+Lemma NR_do_onDisconnect : forall fl cfg s,
+  NR s (fst (fst (do_onDisconnect fl cfg s))) (snd (fst (do_onDisconnect fl cfg s))).
+Proof.
+  intros. unfold do_onDisconnect. destruct (u_disc_super cfg); [|apply NR_quiet; reflexivity].
+  pose proof (NR_errback_all fl cfg s ETransportLost) as H1. destruct (errback_all fl cfg s ETransportLost) as [s1 o1].
+  simpl in *. apply (NR_out s s1 o1 [Called CbDisconnect]); [assumption | reflexivity].
+Qed.
+
+Lemma NR_leave_then : forall fl cfg s rs,
+  let r := (let '(s2, o2, raised) := do_onLeave fl cfg s rs in
+            let '(s3, o3) := defer_leaf fl cfg s2 (LLeaveK raised) in (s3, o2 ++ o3)) in
+  NR s (fst r) (snd r).
+Proof.
+  intros fl cfg s rs. pose proof (NR_do_onLeave fl cfg s rs) as H1.
+  destruct (do_onLeave fl cfg s rs) as [[s2 o2] raised]. simpl in H1.
+  pose proof (NR_defer_leaf fl cfg s2 (LLeaveK raised)) as H2. destruct (defer_leaf fl cfg s2 (LLeaveK raised)) as [s3 o3].
+  simpl in *. eapply NR_trans; eassumption.
+Qed.
+
+Lemma NR_challenge_failed : forall fl cfg s, NR s (fst (challenge_failed fl cfg s)) (snd (challenge_failed fl cfg s)).
+Proof.
+  intros. unfold challenge_failed. destruct (transport s); [|destruct fl; apply NR_quiet; reflexivity].
+  pose proof (send_nr cfg s (MAbort RsCannotAuth) eq_refl) as Hs. destruct (send cfg s (MAbort RsCannotAuth)) as [o1 ok].
+  simpl in Hs. destruct ok.
+  - pose proof (NR_leave_then fl cfg s RsCannotAuth) as H1.
+    destruct (do_onLeave fl cfg s RsCannotAuth) as [[s2 o2] raised].
+    destruct (defer_leaf fl cfg s2 (LLeaveK raised)) as [s3 o3]. simpl in *.
+    change (UserError :: o1 ++ o2 ++ o3) with (([UserError] ++ o1) ++ (o2 ++ o3)).
+    apply NR_out; [exact H1 | rewrite request_ids_app, Hs; reflexivity].
+  - simpl. apply NR_quiet; [|reflexivity]. change (UserError :: o1 ++ ?x) with ([UserError] ++ o1 ++ x).
+    destruct fl; simpl; rewrite request_ids_app, Hs; reflexivity.
+Qed.
+
+Lemma NR_run_thunk : forall fl cfg s t, NR s (fst (run_thunk fl cfg s t)) (snd (run_thunk fl cfg s t)).
+Proof.
+  intros fl cfg s t. destruct t as [l| |o sidv|o]; simpl.
+  - apply NR_run_leaf.
+  - destruct (u_connect cfg); [|apply NR_quiet; reflexivity]. destruct (sid_truthy s); [apply NR_quiet; reflexivity|].
+    destruct (negb (transport s)); [apply NR_quiet; reflexivity|].
+    pose proof (send_nr cfg (set_goodbye s false) MHello eq_refl) as Hs.
+    destruct (send cfg (set_goodbye s false) MHello) as [o ok]. simpl in *. apply NR_quiet; [assumption | reflexivity].
+  - destruct o.
+    + destruct (transport s).
+      * eapply NR_from; [|apply NR_defer_leaf]. reflexivity.
+      * destruct fl; apply NR_quiet; reflexivity.
+    + destruct (transport s); [|destruct fl; apply NR_quiet; reflexivity].
+      pose proof (send_nr cfg s (MAbort RsCannotAuth) eq_refl) as Hs. destruct (send cfg s (MAbort RsCannotAuth)) as [o1 ok].
+      simpl in *. apply NR_quiet; [|reflexivity]. rewrite request_ids_app, Hs. destruct ok; [|destruct fl]; reflexivity.
+    + destruct (transport s); [|destruct fl; apply NR_quiet; reflexivity].
+      pose proof (send_nr cfg s (MAbort RsCannotAuth) eq_refl) as Hs. destruct (send cfg s (MAbort RsCannotAuth)) as [o1 ok].
+      simpl in *. apply NR_quiet; [|reflexivity]. rewrite request_ids_app, Hs. destruct ok; [|destruct fl]; reflexivity.
+  - destruct o.
+    + destruct (transport s).
+      * pose proof (send_nr cfg s MAuthenticate eq_refl) as Hs. destruct (send cfg s MAuthenticate) as [o1 ok]. simpl in Hs.
+        destruct ok; [apply NR_quiet; [assumption | reflexivity]|].
+        destruct fl; [apply NR_quiet; [assumption | reflexivity]|].
+        pose proof (NR_challenge_failed Aio cfg s) as H1. destruct (challenge_failed Aio cfg s) as [s2 o2]. simpl in *.
+        apply NR_out; assumption.
+      * destruct fl; [apply NR_refl | apply NR_challenge_failed].
+    + destruct fl; [apply NR_refl | apply NR_challenge_failed].
+    + apply NR_challenge_failed.
+Qed.
+
+Lemma NR_defer : forall fl cfg s t, NR s (fst (defer fl cfg s t)) (snd (defer fl cfg s t)).
+Proof. intros. destruct fl; simpl; [apply NR_run_thunk | apply NR_quiet; reflexivity]. Qed.
+
+Lemma NR_run_queue : forall fl cfg q s, NR s (fst (run_queue fl cfg s q)) (snd (run_queue fl cfg s q)).
+Proof.
+  induction q as [|t r IH]; simpl; intro s; [apply NR_refl|].
+  pose proof (NR_run_thunk fl cfg s t) as H1. destruct (run_thunk fl cfg s t) as [s1 o1].
+  specialize (IH s1). destruct (run_queue fl cfg s1 r) as [s2 o2]. simpl in *. eapply NR_trans; eassumption.
+Qed.
+
+Lemma NR_pop_reply : forall s k rq found,
+  (forall r s1, next_id s1 = next_id s -> NR s (fst (found r s1)) (snd (found r s1))) ->
+  NR s (fst (pop_reply s k rq found)) (snd (pop_reply s k rq found)).
+Proof.
+  intros s k rq found H. unfold pop_reply. destruct (find_req k rq (pend s)); [|apply NR_quiet; reflexivity].
+  destruct (is_done _ _); [apply NR_quiet; reflexivity|]. apply H. reflexivity.
+Qed.
+
+Lemma NR_complete_from : forall fl cfg s s1 f r, next_id s1 = next_id s ->
+  NR s (fst (complete fl cfg s1 f r)) (snd (complete fl cfg s1 f r)).
+Proof. intros fl cfg s s1 f r H. eapply NR_from; [exact H | apply NR_complete]. Qed.
+
+Lemma NR_established : forall fl cfg s o,
+  NR s (fst (on_message_established fl cfg s o)) (snd (on_message_established fl cfg s o)).
+Proof.
+  intros fl cfg s o. destruct o; simpl; try (apply NR_quiet; reflexivity).
+  - assert (Hs : request_ids (fst (if goodbye_sent s then ([], true) else send cfg s (MGoodbye RsNormal))) = []).
+    { destruct (goodbye_sent s); [reflexivity | now apply send_nr]. }
+    destruct (if goodbye_sent s then ([], true) else send cfg s (MGoodbye RsNormal)) as [o1 ok]. simpl in Hs.
+    destruct ok.
+    + pose proof (NR_leave_then fl cfg (set_sid s None) r) as H1.
+      destruct (do_onLeave fl cfg (set_sid s None) r) as [[s2 o2] raised].
+      destruct (defer_leaf fl cfg s2 (LLeaveK raised)) as [s3 o3]. simpl in *.
+      apply NR_out; [eapply NR_from; [|exact H1]; reflexivity | exact Hs].
+    + simpl. apply NR_quiet; [rewrite request_ids_app, Hs; reflexivity | reflexivity].
+  - apply NR_pop_reply. intros. now apply NR_complete_from.
+  - apply NR_pop_reply. intros. now apply NR_complete_from.
+  - apply NR_pop_reply. intros. now apply NR_complete_from.
+  - destruct (find_req KCall rq (pend s)) as [r|]; [|apply NR_quiet; reflexivity]. destruct progress.
+    + destruct (r_opts r) as [c|]; [|apply NR_quiet; reflexivity]. destruct (co_progress c); apply NR_quiet; reflexivity.
+    + destruct (is_done _ _); [apply NR_quiet; reflexivity|]. now apply NR_complete_from.
+  - apply NR_pop_reply. intros r s1 Hn. destruct (assoc regid (regs s1)); [apply NR_quiet; [reflexivity | exact Hn]|].
+    now apply NR_complete_from.
+  - destruct (rq =? 0).
+    + destruct regid as [g|]; [destruct (assoc g (regs s))|]; apply NR_quiet; reflexivity.
+    + apply NR_pop_reply. intros. now apply NR_complete_from.
+  - destruct (kind_of_code rtype) as [k|]; [|apply NR_quiet; reflexivity].
+    destruct (find_req k rq (pend s)); [|apply NR_quiet; reflexivity]. now apply NR_complete_from.
+  - destruct (assoc subid (subs s)); apply NR_quiet; reflexivity.
+  - destruct (memN rq (invs s)); [apply NR_quiet; reflexivity|]. destruct (assoc regid (regs s)); [|apply NR_quiet; reflexivity].
+    eapply NR_from; [|apply NR_defer_leaf]. reflexivity.
+Qed.
+
+Lemma NR_unjoined : forall fl cfg s o,
+  NR s (fst (on_message_unjoined fl cfg s o)) (snd (on_message_unjoined fl cfg s o)).
+Proof.
+  intros fl cfg s o. destruct o; simpl; try (apply NR_quiet; reflexivity).
+  - pose proof (NR_defer fl cfg s (TWelcomeK (u_welcome cfg) sidv)) as H1.
+    destruct (defer fl cfg s (TWelcomeK (u_welcome cfg) sidv)) as [s1 o1]. simpl in *.
+    apply (NR_out s s1 o1 [Called CbWelcome]); [assumption | reflexivity].
+  - apply NR_leave_then.
+  - pose proof (NR_defer fl cfg s (TChallengeK (u_challenge cfg))) as H1.
+    destruct (defer fl cfg s (TChallengeK (u_challenge cfg))) as [s1 o1]. simpl in *.
+    apply (NR_out s s1 o1 [Called CbChallenge]); [assumption | reflexivity].
+Qed.
+
+(* every step: the request messages it hands to the transport carry the successive generator values *)
+Theorem step_NR : forall fl cfg s o, NR s (fst (step fl cfg s o)) (snd (step fl cfg s o)).
 Proof.
   intros fl cfg s o.
-  assert (Hrouter : step_ids s
+  assert (Hrouter : NR s
             (fst (if negb (transport s) then (s, [])
                   else match sid s with None => on_message_unjoined fl cfg s o | Some _ => on_message_established fl cfg s o end))
             (snd (if negb (transport s) then (s, [])
                   else match sid s with None => on_message_unjoined fl cfg s o | Some _ => on_message_established fl cfg s o end))).
-  { left. destruct (negb (transport s)); [apply NR_refl|]. destruct (sid s); [apply NR_established | apply NR_unjoined]. }
-  destruct o; try exact Hrouter; clear Hrouter; unfold step; cbv beta iota.
-  - left. destruct (opened s); [apply NR_refl|].
-    destruct (NR_defer fl cfg (set_conn s true true true) TConnect) as [A B]. split; [assumption | rewrite B; reflexivity].
-  - left. destruct (negb (transport s)); [apply NR_refl|].
+  { destruct (negb (transport s)); [apply NR_refl|]. destruct (sid s); [apply NR_established | apply NR_unjoined]. }
+  destruct o; try exact Hrouter; clear Hrouter; try apply NR_api_step; unfold step; cbv beta iota.
+  - destruct (opened s); [apply NR_refl|]. eapply NR_from; [|apply NR_defer]. reflexivity.
+  - destruct (negb (transport s)); [apply NR_refl|].
     set (s0 := set_conn s (opened s) false false).
     assert (H3 : let r := (if sid_truthy s0
                            then let '(s1, o1, raised) := do_onLeave fl cfg s0 RsTransportLost in
                                 let '(s2, o2) := defer_leaf fl cfg s1 (LLeaveK raised) in (set_sid s2 None, o1 ++ o2)
                            else (s0, [])) in NR s (fst r) (snd r)).
-    { destruct (sid_truthy s0); [|split; reflexivity].
+    { destruct (sid_truthy s0); [|apply NR_quiet; reflexivity].
       pose proof (NR_leave_then fl cfg s0 RsTransportLost) as H1.
       destruct (do_onLeave fl cfg s0 RsTransportLost) as [[s1 o1] raised].
-      destruct (defer_leaf fl cfg s1 (LLeaveK raised)) as [s2 o2]. simpl in *. destruct H1 as [A B]. split; assumption. }
+      destruct (defer_leaf fl cfg s1 (LLeaveK raised)) as [s2 o2]. simpl in *. exact H1. }
     destruct (if sid_truthy s0
               then let '(s1, o1, raised) := do_onLeave fl cfg s0 RsTransportLost in
                    let '(s2, o2) := defer_leaf fl cfg s1 (LLeaveK raised) in (set_sid s2 None, o1 ++ o2)
@@ -1684,95 +1603,70 @@ Proof.
     pose proof (NR_do_onDisconnect fl cfg s3) as H4. destruct (do_onDisconnect fl cfg s3) as [[s4 o4] raised]. simpl in H4.
     pose proof (NR_defer_leaf fl cfg s4 (LDiscK raised)) as H5. destruct (defer_leaf fl cfg s4 (LDiscK raised)) as [s5 o5].
     simpl in *. eapply NR_trans; [exact H3|]. eapply NR_trans; eassumption.
-  - left. destruct fl; [apply NR_refl|].
-    destruct (NR_run_queue Aio cfg (queue s) (set_queue s [])) as [A B]. split; [assumption | rewrite B; reflexivity].
-  - destruct (negb (transport s)); [left; split; reflexivity|]. right.
-    exact (new_request_sent_ids cfg s KCall o uri
-             (fun id => MCall id uri a kw match o with Some c => co_timeout c | None => None end
-                              match o with Some c => co_progress c | None => false end)
-             false [ApiReturned (Some (next_fut s))] [ApiRaised XTransportLost] (fun _ => eq_refl) eq_refl eq_refl).
-  - destruct (negb (transport s)); [left; split; reflexivity|]. right. destruct (po_wants_ack o).
-    + exact (new_request_sent_ids cfg s KPublish None uri
-               (fun id => MPublish id uri a kw match o with Some p => po_ack p | None => None end
-                                   match o with Some p => po_exclude_me p | None => None end)
-               false [ApiReturned (Some (next_fut s))] [ApiRaised XTransportLost] (fun _ => eq_refl) eq_refl eq_refl).
-    + unfold new_id_only, send. cbn [topen transport set_newreq].
-      destruct (topen s); [|destruct (t_lenient cfg && transport s)]; simpl; split; reflexivity.
-  - destruct (negb (transport s)); [left; split; reflexivity|]. right.
-    pose proof (new_request_sent_ids cfg s KSubscribe None uri
-             (fun id => MSubscribe id uri match o with Some c => opt_default (so_match c) | None => 0 end
-                                   match o with Some c => so_get_retained c | None => None end)
-             true [ApiReturned (Some (next_fut s))] [ApiRaised XTransportLost] (fun _ => eq_refl) eq_refl eq_refl) as HR.
-    unfold new_request in *. cbv zeta beta iota in *. destruct (send cfg _ _) as [o1 ok]. destruct ok; exact HR.
-  - destruct (negb (transport s)); [left; split; reflexivity|]. right.
-    pose proof (new_request_sent_ids cfg s KRegister None uri
-             (fun id => MRegister id uri match o with Some c => opt_default (ro_match c) | None => 0 end
-                                  match o with Some c => opt_default (ro_invoke c) | None => 0 end)
-             true [ApiReturned (Some (next_fut s))] [ApiRaised XTransportLost] (fun _ => eq_refl) eq_refl eq_refl) as HR.
-    unfold new_request in *. cbv zeta beta iota in *. destruct (send cfg _ _) as [o1 ok]. destruct ok; exact HR.
-  - destruct (sub_id_of s h) as [subid|]; [|left; split; reflexivity].
-    destruct (negb (memN h _)); [left; split; reflexivity|]. destruct (negb (transport s)); [left; split; reflexivity|].
+  - destruct fl; [apply NR_refl|]. eapply NR_from; [|apply NR_run_queue]. reflexivity.
+  - (* AUnsubscribe *)
+    destruct (sub_id_of s h) as [subid|]; [|apply NR_quiet; reflexivity].
+    destruct (negb (memN h _)); [apply NR_quiet; reflexivity|]. destruct (negb (transport s)); [apply NR_quiet; reflexivity|].
     set (rest := remove1 h match assoc subid (subs s) with Some l => l | None => [] end).
     set (s0 := set_subs s (assoc_set subid rest (subs s))).
     destruct rest as [|x rest'].
-    + right.
-      pose proof (new_request_sent_ids cfg s0 KUnsubscribe None subid (fun id => MUnsubscribe id subid)
+    + pose proof (new_request_sent_ids cfg s0 KUnsubscribe None subid (fun id => MUnsubscribe id subid)
                true [ApiReturned (Some (next_fut s0))] [ApiRaised XTransportLost] (fun _ => eq_refl) eq_refl eq_refl) as HR.
-      unfold new_request in *. cbv zeta beta iota in *. destruct (send cfg _ _) as [o1 ok]. destruct ok; exact HR.
-    + left.
-      match goal with |- context [complete fl ?S ?F ?R] =>
-        pose proof (NR_complete fl S F R) as [A B]; destruct (complete fl S F R) as [s2 o2] end.
-      simpl in *. split; [exact A | exact B].
-  - destruct (reg_id_of s h) as [regid|]; [|left; split; reflexivity].
-    destruct (assoc regid (regs s)) as [h'|]; [|left; split; reflexivity].
-    destruct (negb (h' =? h)); [left; split; reflexivity|]. destruct (negb (transport s)); [left; split; reflexivity|].
-    right.
-    pose proof (new_request_sent_ids cfg s KUnregister None regid (fun id => MUnregister id regid)
-             true [ApiReturned (Some (next_fut s))] [ApiRaised XTransportLost] (fun _ => eq_refl) eq_refl eq_refl) as HR.
-    unfold new_request in *. cbv zeta beta iota in *. destruct (send cfg _ _) as [o1 ok]. destruct ok; exact HR.
-  - left. destruct (is_done s f); [split; reflexivity|]. destruct (assoc f (issued s)) as [[k id]|]; [|split; reflexivity].
+      unfold new_request in *. cbv zeta beta iota in *. destruct (send cfg _ _) as [o1 ok].
+      destruct ok; destruct HR as [A B]; now apply NR_one.
+    + match goal with |- context [complete fl cfg ?S ?F ?R] =>
+        pose proof (NR_complete fl cfg S F R) as Hc; destruct (complete fl cfg S F R) as [s2 o2] end.
+      simpl in *. apply (NR_out s s2 o2 [ApiReturned (Some (next_fut s0))]); [|reflexivity].
+      eapply NR_from; [|exact Hc]. reflexivity.
+  - (* ACancel *)
+    destruct (is_done s f); [apply NR_quiet; reflexivity|]. destruct (assoc f (issued s)) as [[k id]|]; [|apply NR_quiet; reflexivity].
     destruct fl.
     + assert (Hc : forall tail, request_ids tail = [] ->
-                 let r := (let '(s1, o2) := complete Tx s f (RErr ECancelled) in (s1, o2 ++ tail)) in NR s (fst r) (snd r)).
-      { intros tail Ht. pose proof (NR_complete Tx s f (RErr ECancelled)) as [A B].
-        destruct (complete Tx s f (RErr ECancelled)) as [s1 o2]. simpl in *. split; [rewrite request_ids_app, A, Ht; reflexivity | exact B]. }
+                 let r := (let '(s1, o2) := complete Tx cfg s f (RErr ECancelled) in (s1, o2 ++ tail)) in NR s (fst r) (snd r)).
+      { intros tail Ht. pose proof (NR_complete Tx cfg s f (RErr ECancelled)) as H.
+        destruct (complete Tx cfg s f (RErr ECancelled)) as [s1 o2]. simpl in *. now apply NR_out_r. }
       destruct k; try exact (Hc [ApiReturned None] eq_refl).
-      destruct (transport s); [|split; reflexivity].
+      destruct (transport s); [|apply NR_quiet; reflexivity].
       pose proof (send_nr cfg s (MCancel id) eq_refl) as Hs. destruct (send cfg s (MCancel id)) as [o1 ok]. simpl in Hs.
-      destruct ok; [|unfold NR; simpl; split; [rewrite request_ids_app, Hs; reflexivity | reflexivity]].
-      pose proof (NR_complete Tx s f (RErr ECancelled)) as [A B].
-      destruct (complete Tx s f (RErr ECancelled)) as [s1 o2]. simpl in *.
-      split; [rewrite !request_ids_app, Hs, A; reflexivity | exact B].
-    + destruct k; split; reflexivity.
-  - left. destruct (negb (sid_truthy s)); [split; reflexivity|]. destruct (goodbye_sent s); [split; reflexivity|].
-    destruct (negb (transport s)); [split; reflexivity|].
+      destruct ok; [|simpl; apply NR_quiet; [rewrite request_ids_app, Hs; reflexivity | reflexivity]].
+      pose proof (NR_complete Tx cfg s f (RErr ECancelled)) as H.
+      destruct (complete Tx cfg s f (RErr ECancelled)) as [s1 o2]. simpl in *.
+      apply NR_out; [now apply NR_out_r | exact Hs].
+    + destruct k; apply NR_quiet; reflexivity.
+  - (* ALeave *)
+    destruct (negb (sid_truthy s)); [apply NR_quiet; reflexivity|]. destruct (goodbye_sent s); [apply NR_quiet; reflexivity|].
+    destruct (negb (transport s)); [apply NR_quiet; reflexivity|].
     match goal with |- context [send cfg s ?M] => pose proof (send_nr cfg s M eq_refl) as Hs; destruct (send cfg s M) as [o1 ok] end.
-    simpl in Hs. destruct ok; unfold NR; simpl; split; try reflexivity; rewrite request_ids_app, Hs; reflexivity.
-  - left. destruct (transport s); split; reflexivity.
+    simpl in Hs. destruct ok; simpl; apply NR_quiet; try reflexivity; rewrite request_ids_app, Hs; reflexivity.
+  - (* ADisconnect *) destruct (transport s); apply NR_quiet; reflexivity.
+  - (* AReact *) destruct (is_react_op o && negb (is_done s f) && isNoneB (assoc f (reacts s))); apply NR_quiet; reflexivity.
 Qed.
 
-Lemma run_request_ids : forall fl cfg ops s k,
-  next_id s = idgen_iter k ->
-  let r := run fl cfg s ops in
-  let m := length (request_ids (concat (snd r))) in
-  request_ids (concat (snd r)) = map idgen_iter (seq (S k) m) /\ next_id (fst r) = idgen_iter (k + m).
+Lemma id_chain_iter : forall l k x, id_chain (idgen_iter k) l = Some x ->
+  l = map idgen_iter (seq (S k) (length l)) /\ x = idgen_iter (k + length l).
 Proof.
-  induction ops as [|o t IH]; intros s k Hk.
-  - simpl. split; [reflexivity | rewrite Nat.add_0_r; assumption].
-  - simpl. pose proof (step_step_ids fl cfg s o) as Hst. destruct (step fl cfg s o) as [s1 o1]. simpl in Hst.
-    destruct Hst as [[A B]|[A B]].
-    + specialize (IH s1 k (eq_trans B Hk)). destruct (run fl cfg s1 t) as [s2 tr]. simpl in *.
-      rewrite request_ids_app, A. simpl. exact IH.
-    + assert (Hk1 : next_id s1 = idgen_iter (S k)) by (simpl; rewrite B, Hk; reflexivity).
-      specialize (IH s1 (S k) Hk1). destruct (run fl cfg s1 t) as [s2 tr]. simpl in *.
-      rewrite request_ids_app, A. simpl. destruct IH as [I1 I2]. split.
-      * rewrite Hk. f_equal. exact I1.
-      * rewrite I2. replace (k + S (length (request_ids (concat tr))))%nat with (S k + length (request_ids (concat tr)))%nat by lia. reflexivity.
+  induction l as [|i t IH]; simpl; intros k x H.
+  - inversion H. rewrite Nat.add_0_r. split; reflexivity.
+  - destruct (i =? idgen_next (idgen_iter k)) eqn:E; [|discriminate]. apply N.eqb_eq in E.
+    assert (Ei : i = idgen_iter (S k)) by (simpl; exact E). rewrite Ei in H.
+    destruct (IH (S k) x H) as [A B]. split.
+    + rewrite Ei. f_equal. exact A.
+    + rewrite B. f_equal. lia.
+Qed.
+
+Lemma run_NR : forall fl cfg ops s, NR s (fst (run fl cfg s ops)) (concat (snd (run fl cfg s ops))).
+Proof.
+  induction ops as [|o t IH]; intro s; [apply NR_refl|]. simpl.
+  pose proof (step_NR fl cfg s o) as H1. destruct (step fl cfg s o) as [s1 o1].
+  specialize (IH s1). destruct (run fl cfg s1 t) as [s2 tr]. simpl in *. eapply NR_trans; eassumption.
 Qed.
 
 Theorem request_ids_sequential : forall fl cfg ops,
   request_ids (trace fl cfg ops) = map idgen_iter (seq 1 (length (request_ids (trace fl cfg ops)))).
-Proof. intros. exact (proj1 (run_request_ids fl cfg ops init 0%nat eq_refl)). Qed.
+Proof.
+  intros. pose proof (run_NR fl cfg ops init) as H. unfold NR in H.
+  exact (proj1 (id_chain_iter _ 0%nat _ H)).
+Qed.
 
 (* ---------------------------------------------------------------------------------------------------------- *)
 (* life-cycle events over whole histories                                                                     *)
@@ -1810,23 +1704,86 @@ Proof.
   destruct m; try reflexivity. exfalso. eapply H. reflexivity.
 Qed.
 
-Lemma LQ_complete : forall fl s f r, LQ s (fst (complete fl s f r)) (snd (complete fl s f r)).
-Proof. intros. unfold complete. destruct (is_done s f); [apply LQ_refl|]. destruct fl; split; reflexivity. Qed.
-
-Lemma LQ_complete_from : forall fl s s1 f r, lcore s1 = lcore s ->
-  LQ s (fst (complete fl s1 f r)) (snd (complete fl s1 f r)).
-Proof. intros fl s s1 f r H. destruct (LQ_complete fl s1 f r) as [A B]. split; [assumption | congruence]. Qed.
-
-Lemma LQ_errback_list : forall fl e l s, LQ s (fst (errback_list fl s e l)) (snd (errback_list fl s e l)).
+Lemma new_request_lq : forall cfg s k co t (mk : N -> wmsg) (keep : bool) tail_ok tail_bad,
+  (forall id r, mk id <> MGoodbye r) -> levs tail_ok = [] -> levs tail_bad = [] ->
+  let r := (let '(s1, id, f) := new_request s k co t in
+            let '(o1, ok) := send cfg s1 (mk id) in
+            if ok then (s1, o1 ++ tail_ok)
+            else ((if keep then s1 else drop_request s1 k id f), o1 ++ tail_bad)) in
+  LQ s (fst r) (snd r).
 Proof.
-  induction l as [|r t IH]; simpl; intro s; [apply LQ_refl|].
-  pose proof (LQ_complete fl s (r_fut r) (RErr e)) as H1. destruct (complete fl s (r_fut r) (RErr e)) as [s1 o1].
-  specialize (IH s1). destruct (errback_list fl s1 e t) as [s2 o2]. simpl in *. eapply LQ_trans; eassumption.
+  intros cfg s k co t mk keep tail_ok tail_bad Hmk Hok Hbad. unfold new_request. cbv zeta beta iota.
+  match goal with |- context [send cfg ?S ?M] => pose proof (send_lq cfg S M (Hmk _)) as Hs; destruct (send cfg S M) as [o1 ok] end.
+  simpl in Hs. destruct ok; [|destruct keep]; unfold LQ; simpl; rewrite levs_app, Hs, ?Hok, ?Hbad; split; reflexivity.
 Qed.
 
-Lemma LQ_errback_all : forall fl s e, LQ s (fst (errback_all fl s e)) (snd (errback_all fl s e)).
+Lemma LQ_api_step : forall cfg s o, LQ s (fst (api_step cfg s o)) (snd (api_step cfg s o)).
 Proof.
-  intros. unfold errback_all. destruct (LQ_errback_list fl e (outstanding (pend s)) (set_pend s [])) as [A B].
+  intros cfg s o. destruct o; try apply LQ_refl; unfold api_step.
+  - destruct (negb (transport s)); [split; reflexivity|].
+    exact (new_request_lq cfg s KCall o uri
+             (fun id => MCall id uri a kw match o with Some c => co_timeout c | None => None end
+                              match o with Some c => co_progress c | None => false end)
+             false [ApiReturned (Some (next_fut s))] [ApiRaised XTransportLost]
+             (fun _ _ E => ltac:(discriminate E)) eq_refl eq_refl).
+  - destruct (negb (transport s)); [split; reflexivity|]. destruct (po_wants_ack o).
+    + exact (new_request_lq cfg s KPublish None uri
+               (fun id => MPublish id uri a kw match o with Some p => po_ack p | None => None end
+                                   match o with Some p => po_exclude_me p | None => None end)
+               false [ApiReturned (Some (next_fut s))] [ApiRaised XTransportLost]
+               (fun _ _ E => ltac:(discriminate E)) eq_refl eq_refl).
+    + unfold new_id_only.
+      match goal with |- context [send cfg ?S ?M] =>
+        assert (Hm : forall r, M <> MGoodbye r) by (intros r E; discriminate);
+        pose proof (send_lq cfg S M Hm) as Hs; destruct (send cfg S M) as [o1 ok] end.
+      simpl in Hs. unfold LQ. simpl. rewrite levs_app, Hs. destruct ok; split; reflexivity.
+  - destruct (negb (transport s)); [split; reflexivity|].
+    pose proof (new_request_lq cfg s KSubscribe None uri
+             (fun id => MSubscribe id uri match o with Some c => opt_default (so_match c) | None => 0 end
+                                   match o with Some c => so_get_retained c | None => None end)
+             true [ApiReturned (Some (next_fut s))] [ApiRaised XTransportLost]
+             (fun _ _ E => ltac:(discriminate E)) eq_refl eq_refl) as HR.
+    unfold new_request in *. cbv zeta beta iota in *. destruct (send cfg _ _) as [o1 ok]. destruct ok; exact HR.
+  - destruct (negb (transport s)); [split; reflexivity|].
+    pose proof (new_request_lq cfg s KRegister None uri
+             (fun id => MRegister id uri match o with Some c => opt_default (ro_match c) | None => 0 end
+                                  match o with Some c => opt_default (ro_invoke c) | None => 0 end)
+             true [ApiReturned (Some (next_fut s))] [ApiRaised XTransportLost]
+             (fun _ _ E => ltac:(discriminate E)) eq_refl eq_refl) as HR.
+    unfold new_request in *. cbv zeta beta iota in *. destruct (send cfg _ _) as [o1 ok]. destruct ok; exact HR.
+  - destruct (reg_id_of s h) as [regid|]; [|split; reflexivity].
+    destruct (assoc regid (regs s)) as [h'|]; [|split; reflexivity].
+    destruct (negb (h' =? h)); [split; reflexivity|]. destruct (negb (transport s)); [split; reflexivity|].
+    pose proof (new_request_lq cfg s KUnregister None regid (fun id => MUnregister id regid)
+             true [ApiReturned (Some (next_fut s))] [ApiRaised XTransportLost]
+             (fun _ _ E => ltac:(discriminate E)) eq_refl eq_refl) as HR.
+    unfold new_request in *. cbv zeta beta iota in *. destruct (send cfg _ _) as [o1 ok]. destruct ok; exact HR.
+Qed.
+
+Lemma LQ_react : forall cfg s f, LQ s (fst (react cfg s f)) (snd (react cfg s f)).
+Proof. intros. unfold react. destruct (assoc f (reacts s)); [apply LQ_api_step | apply LQ_refl]. Qed.
+
+Lemma LQ_complete : forall fl cfg s f r, LQ s (fst (complete fl cfg s f r)) (snd (complete fl cfg s f r)).
+Proof.
+  intros. unfold complete. destruct (is_done s f); [apply LQ_refl|]. destruct fl; [|split; reflexivity].
+  pose proof (LQ_react cfg (set_done s (done s ++ [(f, r)])) f) as [A B].
+  destruct (react cfg (set_done s (done s ++ [(f, r)])) f) as [s2 o2]. simpl in *. split; [exact A | exact B].
+Qed.
+
+Lemma LQ_complete_from : forall fl cfg s s1 f r, lcore s1 = lcore s ->
+  LQ s (fst (complete fl cfg s1 f r)) (snd (complete fl cfg s1 f r)).
+Proof. intros fl cfg s s1 f r H. destruct (LQ_complete fl cfg s1 f r) as [A B]. split; [assumption | congruence]. Qed.
+
+Lemma LQ_errback_list : forall fl cfg e l s, LQ s (fst (errback_list fl cfg s e l)) (snd (errback_list fl cfg s e l)).
+Proof.
+  induction l as [|r t IH]; simpl; intro s; [apply LQ_refl|].
+  pose proof (LQ_complete fl cfg s (r_fut r) (RErr e)) as H1. destruct (complete fl cfg s (r_fut r) (RErr e)) as [s1 o1].
+  specialize (IH s1). destruct (errback_list fl cfg s1 e t) as [s2 o2]. simpl in *. eapply LQ_trans; eassumption.
+Qed.
+
+Lemma LQ_errback_all : forall fl cfg s e, LQ s (fst (errback_all fl cfg s e)) (snd (errback_all fl cfg s e)).
+Proof.
+  intros. unfold errback_all. destruct (LQ_errback_list fl cfg e (outstanding (pend s)) (set_pend s [])) as [A B].
   split; [assumption | rewrite B; reflexivity].
 Qed.
 
@@ -1873,58 +1830,15 @@ Qed.
 
 Definition is_quiet_api (o : op) : bool :=
   match o with
-  | ACall _ _ _ _ | APublish _ _ _ _ | ASubscribe _ _ | ARegister _ _ | AUnsubscribe _ | AUnregister _ | ACancel _ => true
+  | ACall _ _ _ _ | APublish _ _ _ _ | ASubscribe _ _ | ARegister _ _ | AUnsubscribe _ | AUnregister _ | ACancel _
+  | AReact _ _ => true
   | _ => false
   end.
-
-Lemma new_request_lq : forall cfg s k co t (mk : N -> wmsg) (keep : bool) tail_ok tail_bad,
-  (forall id r, mk id <> MGoodbye r) -> levs tail_ok = [] -> levs tail_bad = [] ->
-  let r := (let '(s1, id, f) := new_request s k co t in
-            let '(o1, ok) := send cfg s1 (mk id) in
-            if ok then (s1, o1 ++ tail_ok)
-            else ((if keep then s1 else drop_request s1 k id f), o1 ++ tail_bad)) in
-  LQ s (fst r) (snd r).
-Proof.
-  intros cfg s k co t mk keep tail_ok tail_bad Hmk Hok Hbad. unfold new_request. cbv zeta beta iota.
-  match goal with |- context [send cfg ?S ?M] => pose proof (send_lq cfg S M (Hmk _)) as Hs; destruct (send cfg S M) as [o1 ok] end.
-  simpl in Hs. destruct ok; [|destruct keep]; unfold LQ; simpl; rewrite levs_app, Hs, ?Hok, ?Hbad; split; reflexivity.
-Qed.
 
 (* request API calls and cancel are invisible to the life-cycle *)
 Lemma LQ_api : forall fl cfg s o, is_quiet_api o = true -> LQ s (fst (step fl cfg s o)) (snd (step fl cfg s o)).
 Proof.
-  intros fl cfg s o Hq. destruct o; try discriminate; clear Hq; unfold step; cbv beta iota.
-  - destruct (negb (transport s)); [split; reflexivity|].
-    exact (new_request_lq cfg s KCall o uri
-             (fun id => MCall id uri a kw match o with Some c => co_timeout c | None => None end
-                              match o with Some c => co_progress c | None => false end)
-             false [ApiReturned (Some (next_fut s))] [ApiRaised XTransportLost]
-             (fun _ _ E => ltac:(discriminate E)) eq_refl eq_refl).
-  - destruct (negb (transport s)); [split; reflexivity|]. destruct (po_wants_ack o).
-    + exact (new_request_lq cfg s KPublish None uri
-               (fun id => MPublish id uri a kw match o with Some p => po_ack p | None => None end
-                                   match o with Some p => po_exclude_me p | None => None end)
-               false [ApiReturned (Some (next_fut s))] [ApiRaised XTransportLost]
-               (fun _ _ E => ltac:(discriminate E)) eq_refl eq_refl).
-    + unfold new_id_only.
-      match goal with |- context [send cfg ?S ?M] =>
-        assert (Hm : forall r, M <> MGoodbye r) by (intros r E; discriminate);
-        pose proof (send_lq cfg S M Hm) as Hs; destruct (send cfg S M) as [o1 ok] end.
-      simpl in Hs. unfold LQ. simpl. rewrite levs_app, Hs. destruct ok; split; reflexivity.
-  - destruct (negb (transport s)); [split; reflexivity|].
-    pose proof (new_request_lq cfg s KSubscribe None uri
-             (fun id => MSubscribe id uri match o with Some c => opt_default (so_match c) | None => 0 end
-                                   match o with Some c => so_get_retained c | None => None end)
-             true [ApiReturned (Some (next_fut s))] [ApiRaised XTransportLost]
-             (fun _ _ E => ltac:(discriminate E)) eq_refl eq_refl) as HR.
-    unfold new_request in *. cbv zeta beta iota in *. destruct (send cfg _ _) as [o1 ok]. destruct ok; exact HR.
-  - destruct (negb (transport s)); [split; reflexivity|].
-    pose proof (new_request_lq cfg s KRegister None uri
-             (fun id => MRegister id uri match o with Some c => opt_default (ro_match c) | None => 0 end
-                                  match o with Some c => opt_default (ro_invoke c) | None => 0 end)
-             true [ApiReturned (Some (next_fut s))] [ApiRaised XTransportLost]
-             (fun _ _ E => ltac:(discriminate E)) eq_refl eq_refl) as HR.
-    unfold new_request in *. cbv zeta beta iota in *. destruct (send cfg _ _) as [o1 ok]. destruct ok; exact HR.
+  intros fl cfg s o Hq. destruct o; try discriminate; clear Hq; try apply LQ_api_step; unfold step; cbv beta iota.
   - destruct (sub_id_of s h) as [subid|]; [|split; reflexivity].
     destruct (negb (memN h _)); [split; reflexivity|]. destruct (negb (transport s)); [split; reflexivity|].
     set (rest := remove1 h match assoc subid (subs s) with Some l => l | None => [] end).
@@ -1934,31 +1848,25 @@ Proof.
                true [ApiReturned (Some (next_fut s0))] [ApiRaised XTransportLost]
                (fun _ _ E => ltac:(discriminate E)) eq_refl eq_refl) as HR.
       unfold new_request in *. cbv zeta beta iota in *. destruct (send cfg _ _) as [o1 ok]. destruct ok; exact HR.
-    + match goal with |- context [complete fl ?S ?F ?R] =>
-        pose proof (LQ_complete fl S F R) as [A B]; destruct (complete fl S F R) as [s2 o2] end.
+    + match goal with |- context [complete fl cfg ?S ?F ?R] =>
+        pose proof (LQ_complete fl cfg S F R) as [A B]; destruct (complete fl cfg S F R) as [s2 o2] end.
       simpl in *. split; [exact A | exact B].
-  - destruct (reg_id_of s h) as [regid|]; [|split; reflexivity].
-    destruct (assoc regid (regs s)) as [h'|]; [|split; reflexivity].
-    destruct (negb (h' =? h)); [split; reflexivity|]. destruct (negb (transport s)); [split; reflexivity|].
-    pose proof (new_request_lq cfg s KUnregister None regid (fun id => MUnregister id regid)
-             true [ApiReturned (Some (next_fut s))] [ApiRaised XTransportLost]
-             (fun _ _ E => ltac:(discriminate E)) eq_refl eq_refl) as HR.
-    unfold new_request in *. cbv zeta beta iota in *. destruct (send cfg _ _) as [o1 ok]. destruct ok; exact HR.
   - destruct (is_done s f); [split; reflexivity|]. destruct (assoc f (issued s)) as [[k id]|]; [|split; reflexivity].
     destruct fl.
     + assert (Hc : forall tail, levs tail = [] ->
-                 let r := (let '(s1, o2) := complete Tx s f (RErr ECancelled) in (s1, o2 ++ tail)) in LQ s (fst r) (snd r)).
-      { intros tail Ht. pose proof (LQ_complete Tx s f (RErr ECancelled)) as [A B].
-        destruct (complete Tx s f (RErr ECancelled)) as [s1 o2]. simpl in *. split; [rewrite levs_app, A, Ht; reflexivity | exact B]. }
+                 let r := (let '(s1, o2) := complete Tx cfg s f (RErr ECancelled) in (s1, o2 ++ tail)) in LQ s (fst r) (snd r)).
+      { intros tail Ht. pose proof (LQ_complete Tx cfg s f (RErr ECancelled)) as [A B].
+        destruct (complete Tx cfg s f (RErr ECancelled)) as [s1 o2]. simpl in *. split; [rewrite levs_app, A, Ht; reflexivity | exact B]. }
       destruct k; try exact (Hc [ApiReturned None] eq_refl).
       destruct (transport s); [|split; reflexivity].
       assert (Hm : forall r, MCancel id <> MGoodbye r) by (intros r E; discriminate).
       pose proof (send_lq cfg s (MCancel id) Hm) as Hs. destruct (send cfg s (MCancel id)) as [o1 ok]. simpl in Hs.
       destruct ok; [|unfold LQ; simpl; split; [rewrite levs_app, Hs; reflexivity | reflexivity]].
-      pose proof (LQ_complete Tx s f (RErr ECancelled)) as [A B].
-      destruct (complete Tx s f (RErr ECancelled)) as [s1 o2]. simpl in *.
+      pose proof (LQ_complete Tx cfg s f (RErr ECancelled)) as [A B].
+      destruct (complete Tx cfg s f (RErr ECancelled)) as [s1 o2]. simpl in *.
       split; [rewrite levs_app, Hs, levs_app, A; reflexivity | exact B].
     + destruct k; split; reflexivity.
+  - destruct (is_react_op o && negb (is_done s f) && isNoneB (assoc f (reacts s))); split; reflexivity.
 Qed.
 
 (* ---- Twisted: what each step does to the life-cycle, exactly ---- *)
@@ -2022,7 +1930,7 @@ Lemma tx_onLeave : forall cfg s rs,
   levs (snd (fst (do_onLeave Tx cfg s rs))) = [LvLeave] /\ lcore (fst (fst (do_onLeave Tx cfg s rs))) = lcore s.
 Proof.
   intros. unfold do_onLeave. destruct (u_leave_super cfg); [|split; reflexivity].
-  pose proof (LQ_errback_all Tx s (ELeave rs)) as [A1 B1]. destruct (errback_all Tx s (ELeave rs)) as [s1 o1].
+  pose proof (LQ_errback_all Tx cfg s (ELeave rs)) as [A1 B1]. destruct (errback_all Tx cfg s (ELeave rs)) as [s1 o1].
   pose proof (tx_run_leaf_quiet cfg s1 LLeaveDisconnect I) as [A2 B2].
   unfold defer_leaf. destruct (run_leaf Tx cfg s1 LLeaveDisconnect) as [s2 o2]. simpl in *.
   split; [rewrite levs_app, A1, A2; reflexivity | congruence].
@@ -2042,7 +1950,7 @@ Lemma tx_onDisconnect : forall cfg s,
   levs (snd (fst (do_onDisconnect Tx cfg s))) = [LvDisconnect] /\ lcore (fst (fst (do_onDisconnect Tx cfg s))) = lcore s.
 Proof.
   intros. unfold do_onDisconnect. destruct (u_disc_super cfg); [|split; reflexivity].
-  pose proof (LQ_errback_all Tx s ETransportLost) as [A1 B1]. destruct (errback_all Tx s ETransportLost) as [s1 o1].
+  pose proof (LQ_errback_all Tx cfg s ETransportLost) as [A1 B1]. destruct (errback_all Tx cfg s ETransportLost) as [s1 o1].
   simpl in *. split; [rewrite A1; reflexivity | assumption].
 Qed.
 
@@ -2444,22 +2352,51 @@ Proof. unfold pe_only. intros. rewrite forallb_app, H, H0. reflexivity. Qed.
 Lemma pe_send : forall cfg s m, pe_only (fst (send cfg s m)).
 Proof. intros. unfold send. destruct (topen s); [|destruct (t_lenient cfg && transport s)]; reflexivity. Qed.
 
-Lemma pe_complete : forall fl s f r, pe_only (snd (complete fl s f r)).
-Proof. intros. unfold complete. destruct (is_done s f); [reflexivity|]. destruct fl; reflexivity. Qed.
-
-Lemma pe_errback_list : forall fl e l s, pe_only (snd (errback_list fl s e l)).
+Lemma pe_api_step : forall cfg s o, pe_only (snd (api_step cfg s o)).
 Proof.
-  induction l as [|r t IH]; simpl; intro s; [reflexivity|].
-  pose proof (pe_complete fl s (r_fut r) (RErr e)) as H1. destruct (complete fl s (r_fut r) (RErr e)) as [s1 o1].
-  specialize (IH s1). destruct (errback_list fl s1 e t) as [s2 o2]. simpl in *. now apply pe_app.
+  intros cfg s o. destruct o; try reflexivity; unfold api_step.
+  - destruct (negb (transport s)); [reflexivity|]. unfold new_request. cbv zeta beta iota.
+    match goal with |- context [send cfg ?S ?M] => pose proof (pe_send cfg S M) as Hs; destruct (send cfg S M) as [o1 ok] end.
+    simpl in Hs. destruct ok; simpl; (apply pe_app; [assumption | reflexivity]).
+  - destruct (negb (transport s)); [reflexivity|]. destruct (po_wants_ack o); unfold new_request, new_id_only; cbv zeta beta iota;
+    match goal with |- context [send cfg ?S ?M] => pose proof (pe_send cfg S M) as Hs; destruct (send cfg S M) as [o1 ok] end;
+    simpl in Hs; destruct ok; simpl; (apply pe_app; [assumption | reflexivity]).
+  - destruct (negb (transport s)); [reflexivity|]. unfold new_request. cbv zeta beta iota.
+    match goal with |- context [send cfg ?S ?M] => pose proof (pe_send cfg S M) as Hs; destruct (send cfg S M) as [o1 ok] end.
+    simpl in Hs. destruct ok; simpl; (apply pe_app; [assumption | reflexivity]).
+  - destruct (negb (transport s)); [reflexivity|]. unfold new_request. cbv zeta beta iota.
+    match goal with |- context [send cfg ?S ?M] => pose proof (pe_send cfg S M) as Hs; destruct (send cfg S M) as [o1 ok] end.
+    simpl in Hs. destruct ok; simpl; (apply pe_app; [assumption | reflexivity]).
+  - destruct (reg_id_of s h) as [regid|]; [|reflexivity]. destruct (assoc regid (regs s)) as [h'|]; [|reflexivity].
+    destruct (negb (h' =? h)); [reflexivity|]. destruct (negb (transport s)); [reflexivity|]. unfold new_request. cbv zeta beta iota.
+    match goal with |- context [send cfg ?S ?M] => pose proof (pe_send cfg S M) as Hs; destruct (send cfg S M) as [o1 ok] end.
+    simpl in Hs. destruct ok; simpl; (apply pe_app; [assumption | reflexivity]).
 Qed.
 
-Lemma pe_errback_all : forall fl s e, pe_only (snd (errback_all fl s e)).
+Lemma pe_react : forall cfg s f, pe_only (snd (react cfg s f)).
+Proof. intros. unfold react. destruct (assoc f (reacts s)); [apply pe_api_step | reflexivity]. Qed.
+
+Lemma pe_complete : forall fl cfg s f r, pe_only (snd (complete fl cfg s f r)).
+Proof.
+  intros. unfold complete. destruct (is_done s f); [reflexivity|]. destruct fl; [|reflexivity].
+  pose proof (pe_react cfg (set_done s (done s ++ [(f, r)])) f) as H.
+  destruct (react cfg (set_done s (done s ++ [(f, r)])) f) as [s2 o2]. simpl in *. exact H.
+Qed.
+
+Lemma pe_errback_list : forall fl cfg e l s, pe_only (snd (errback_list fl cfg s e l)).
+Proof.
+  induction l as [|r t IH]; simpl; intro s; [reflexivity|].
+  pose proof (pe_complete fl cfg s (r_fut r) (RErr e)) as H1. destruct (complete fl cfg s (r_fut r) (RErr e)) as [s1 o1].
+  specialize (IH s1). destruct (errback_list fl cfg s1 e t) as [s2 o2]. simpl in *. now apply pe_app.
+Qed.
+
+Lemma pe_errback_all : forall fl cfg s e, pe_only (snd (errback_all fl cfg s e)).
 Proof. intros. unfold errback_all. apply pe_errback_list. Qed.
 
 Lemma pe_run_leaf : forall fl cfg s l, pe_only (snd (run_leaf fl cfg s l)).
 Proof.
   intros fl cfg s l. destruct l; simpl; try reflexivity.
+  - pose proof (pe_react cfg s f) as H. destruct (react cfg s f) as [s2 o2]. simpl in *. exact H.
   - destruct (sdetails s); [|reflexivity]. destruct (u_join_raises cfg); [destruct fl|]; reflexivity.
   - destruct raised; reflexivity.
   - destruct (transport s); reflexivity.
@@ -2477,7 +2414,7 @@ Proof. intros. destruct fl; simpl; [apply pe_run_leaf | reflexivity]. Qed.
 Lemma pe_do_onLeave : forall fl cfg s rs, pe_only (snd (fst (do_onLeave fl cfg s rs))).
 Proof.
   intros. unfold do_onLeave. destruct (u_leave_super cfg); [|reflexivity].
-  pose proof (pe_errback_all fl s (ELeave rs)) as H1. destruct (errback_all fl s (ELeave rs)) as [s1 o1].
+  pose proof (pe_errback_all fl cfg s (ELeave rs)) as H1. destruct (errback_all fl cfg s (ELeave rs)) as [s1 o1].
   pose proof (pe_defer_leaf fl cfg s1 LLeaveDisconnect) as H2. destruct (defer_leaf fl cfg s1 LLeaveDisconnect) as [s2 o2].
   simpl in *. apply (pe_app [Called (CbLeave rs (sid s))]); [reflexivity | now apply pe_app].
 Qed.
@@ -2485,7 +2422,7 @@ Qed.
 Lemma pe_do_onDisconnect : forall fl cfg s, pe_only (snd (fst (do_onDisconnect fl cfg s))).
 Proof.
   intros. unfold do_onDisconnect. destruct (u_disc_super cfg); [|reflexivity].
-  pose proof (pe_errback_all fl s ETransportLost) as H1. destruct (errback_all fl s ETransportLost) as [s1 o1].
+  pose proof (pe_errback_all fl cfg s ETransportLost) as H1. destruct (errback_all fl cfg s ETransportLost) as [s1 o1].
   simpl in *. apply (pe_app [Called CbDisconnect]); [reflexivity | assumption].
 Qed.
 
@@ -2597,7 +2534,7 @@ Proof.
             pe_only (snd (if negb (transport s) then (s, [])
                           else match sid s with None => on_message_unjoined fl cfg s o' | Some _ => on_message_established fl cfg s o' end))).
   { intros o' Hng. destruct (negb (transport s)); [reflexivity|]. destruct (sid s); [now apply pe_established | apply pe_unjoined]. }
-  destruct o; try (left; apply Hrouter; intros r0 E; discriminate); unfold step; cbv beta iota.
+  destruct o; try (left; apply Hrouter; intros r0 E; discriminate); try (left; apply pe_api_step); unfold step; cbv beta iota.
   - left. destruct (opened s); [reflexivity | apply pe_defer].
   - left. destruct (negb (transport s)); [reflexivity|].
     set (s0 := set_conn s (opened s) false false).
@@ -2616,45 +2553,30 @@ Proof.
     pose proof (pe_defer_leaf fl cfg s4 (LDiscK raised)) as H5. destruct (defer_leaf fl cfg s4 (LDiscK raised)) as [s5 o5].
     simpl in *. apply pe_app; [assumption | now apply pe_app].
   - left. destruct fl; [reflexivity | apply pe_run_queue].
-  - left. destruct (negb (transport s)); [reflexivity|]. unfold new_request. cbv zeta beta iota.
-    match goal with |- context [send cfg ?S ?M] => pose proof (pe_send cfg S M) as Hs; destruct (send cfg S M) as [o1 ok] end.
-    simpl in Hs. destruct ok; simpl; (apply pe_app; [assumption | reflexivity]).
-  - left. destruct (negb (transport s)); [reflexivity|]. destruct (po_wants_ack o); unfold new_request, new_id_only; cbv zeta beta iota;
-    match goal with |- context [send cfg ?S ?M] => pose proof (pe_send cfg S M) as Hs; destruct (send cfg S M) as [o1 ok] end;
-    simpl in Hs; destruct ok; simpl; (apply pe_app; [assumption | reflexivity]).
-  - left. destruct (negb (transport s)); [reflexivity|]. unfold new_request. cbv zeta beta iota.
-    match goal with |- context [send cfg ?S ?M] => pose proof (pe_send cfg S M) as Hs; destruct (send cfg S M) as [o1 ok] end.
-    simpl in Hs. destruct ok; simpl; (apply pe_app; [assumption | reflexivity]).
-  - left. destruct (negb (transport s)); [reflexivity|]. unfold new_request. cbv zeta beta iota.
-    match goal with |- context [send cfg ?S ?M] => pose proof (pe_send cfg S M) as Hs; destruct (send cfg S M) as [o1 ok] end.
-    simpl in Hs. destruct ok; simpl; (apply pe_app; [assumption | reflexivity]).
   - left. destruct (sub_id_of s h) as [subid|]; [|reflexivity]. destruct (negb (memN h _)); [reflexivity|].
     destruct (negb (transport s)); [reflexivity|].
     destruct (remove1 h match assoc subid (subs s) with Some l => l | None => [] end) as [|x rest'].
     + unfold new_request. cbv zeta beta iota.
       match goal with |- context [send cfg ?S ?M] => pose proof (pe_send cfg S M) as Hs; destruct (send cfg S M) as [o1 ok] end.
       simpl in Hs. destruct ok; simpl; (apply pe_app; [assumption | reflexivity]).
-    + match goal with |- context [complete fl ?S ?F ?R] => pose proof (pe_complete fl S F R) as Hc; destruct (complete fl S F R) as [s2 o2] end.
+    + match goal with |- context [complete fl cfg ?S ?F ?R] => pose proof (pe_complete fl cfg S F R) as Hc; destruct (complete fl cfg S F R) as [s2 o2] end.
       simpl in *. exact Hc.
-  - left. destruct (reg_id_of s h) as [regid|]; [|reflexivity]. destruct (assoc regid (regs s)) as [h'|]; [|reflexivity].
-    destruct (negb (h' =? h)); [reflexivity|]. destruct (negb (transport s)); [reflexivity|]. unfold new_request. cbv zeta beta iota.
-    match goal with |- context [send cfg ?S ?M] => pose proof (pe_send cfg S M) as Hs; destruct (send cfg S M) as [o1 ok] end.
-    simpl in Hs. destruct ok; simpl; (apply pe_app; [assumption | reflexivity]).
   - left. destruct (is_done s f); [reflexivity|]. destruct (assoc f (issued s)) as [[k id]|]; [|reflexivity].
     destruct fl; [|destruct k; reflexivity].
-    assert (Hc : pe_only (snd (let '(s1, o2) := complete Tx s f (RErr ECancelled) in (s1, o2 ++ [ApiReturned None])))).
-    { pose proof (pe_complete Tx s f (RErr ECancelled)) as Hc. destruct (complete Tx s f (RErr ECancelled)). simpl in *.
+    assert (Hc : pe_only (snd (let '(s1, o2) := complete Tx cfg s f (RErr ECancelled) in (s1, o2 ++ [ApiReturned None])))).
+    { pose proof (pe_complete Tx cfg s f (RErr ECancelled)) as Hc. destruct (complete Tx cfg s f (RErr ECancelled)). simpl in *.
       apply pe_app; [assumption | reflexivity]. }
     destruct k; try exact Hc. destruct (transport s); [|reflexivity].
     pose proof (pe_send cfg s (MCancel id)) as Hs. destruct (send cfg s (MCancel id)) as [o1 ok]. simpl in Hs.
     destruct ok; [|simpl; apply pe_app; [assumption | reflexivity]].
-    pose proof (pe_complete Tx s f (RErr ECancelled)) as Hc2. destruct (complete Tx s f (RErr ECancelled)). simpl in *.
+    pose proof (pe_complete Tx cfg s f (RErr ECancelled)) as Hc2. destruct (complete Tx cfg s f (RErr ECancelled)). simpl in *.
     apply pe_app; [assumption | apply pe_app; [assumption | reflexivity]].
   - left. destruct (negb (sid_truthy s)); [reflexivity|]. destruct (goodbye_sent s); [reflexivity|].
     destruct (negb (transport s)); [reflexivity|].
     match goal with |- context [send cfg s ?M] => pose proof (pe_send cfg s M) as Hs; destruct (send cfg s M) as [o1 ok] end.
     simpl in Hs. destruct ok; simpl; (apply pe_app; [assumption | reflexivity]).
   - left. destruct (transport s); reflexivity.
+  - left. destruct (is_react_op o && negb (is_done s f) && isNoneB (assoc f (reacts s))); reflexivity.
   - (* RGoodbye *)
     destruct (transport s) eqn:Et; [|left; reflexivity]. simpl negb. cbv iota.
     destruct (sid s) as [v|] eqn:Es; [|left; reflexivity]. unfold on_message_established.
@@ -2724,6 +2646,7 @@ Definition api_request (s : sess) (a : op) : option (kind * option call_opts * N
    reply's content; the call itself returns that future and does not raise. *)
 Theorem reply_during_send : forall fl cfg s a r v k co t c,
   transport s = true -> topen s = true -> sid s = Some v -> is_done s (next_fut s) = false ->
+  assoc (next_fut s) (reacts s) = None ->
   api_request s a = Some (k, co, t) ->
   reply_spec r = Some (k, idgen_next (next_id s), c) ->
   match r with RRegistered _ g => assoc g (regs s) = None | _ => True end ->
@@ -2735,9 +2658,9 @@ Theorem reply_during_send : forall fl cfg s a r v k co t c,
   /\ pend s2 = remove_req k (idgen_next (next_id s)) (put_req rq (pend s))
   /\ done s2 = done s ++ [(f, c rq)] /\ user_sees fl s1 s2 o2 f (c rq).
 Proof.
-  intros fl cfg s a r v k co t c Ht Ho Hs Hd Ha Hr Hwf. cbv zeta.
+  intros fl cfg s a r v k co t c Ht Ho Hs Hd Hno Ha Hr Hwf. cbv zeta.
   assert (Hgen : forall s1 o1, step fl cfg s a = (s1, o1) ->
-            transport s1 = true -> sid s1 = Some v -> regs s1 = regs s -> done s1 = done s ->
+            transport s1 = true -> sid s1 = Some v -> regs s1 = regs s -> done s1 = done s -> reacts s1 = reacts s ->
             pend s1 = put_req (mkreq k (idgen_next (next_id s)) (next_fut s) co t) (pend s) ->
             next_id s1 = idgen_next (next_id s) ->
             (exists m, o1 = [Sent m; ApiReturned (Some (next_fut s))]) ->
@@ -2746,14 +2669,15 @@ Proof.
             /\ pend s2 = remove_req k (idgen_next (next_id s)) (put_req (mkreq k (idgen_next (next_id s)) (next_fut s) co t) (pend s))
             /\ done s2 = done s ++ [(next_fut s, c (mkreq k (idgen_next (next_id s)) (next_fut s) co t))]
             /\ user_sees fl s1 s2 o2 (next_fut s) (c (mkreq k (idgen_next (next_id s)) (next_fut s) co t))).
-  { intros s1 o1 Hst Ht1 Hs1 Hrg Hdn Hp Hn Ho1.
+  { intros s1 o1 Hst Ht1 Hs1 Hrg Hdn Hrc Hp Hn Ho1.
     set (rq := mkreq k (idgen_next (next_id s)) (next_fut s) co t) in *.
     assert (Hf : find_req k (idgen_next (next_id s)) (pend s1) = Some rq).
     { rewrite Hp. exact (find_req_put rq (pend s)). }
     assert (Hd1 : is_done s1 (r_fut rq) = false) by (unfold is_done; rewrite Hdn; exact Hd).
     assert (Hwf1 : reply_wellformed s1 r).
     { destruct r; simpl; auto. rewrite Hrg. exact Hwf. }
-    pose proof (reply_completes fl cfg s1 r v k (idgen_next (next_id s)) c rq Ht1 Hs1 Hr Hf Hd1 Hwf1) as H.
+    assert (Hno1 : assoc (r_fut rq) (reacts s1) = None) by (rewrite Hrc; exact Hno).
+    pose proof (reply_completes fl cfg s1 r v k (idgen_next (next_id s)) c rq Ht1 Hs1 Hr Hf Hd1 Hwf1 Hno1) as H.
     destruct (step fl cfg s1 r) as [s2 o2]. destruct H as [P1 [P2 [P3 _]]].
     split; [assumption|]. split; [rewrite P1, Hp; reflexivity|]. split; [rewrite P2, Hdn; reflexivity | exact P3]. }
   destruct a; simpl in Ha; try discriminate.
@@ -2761,25 +2685,25 @@ Proof.
     destruct (call_one_message fl cfg s t a kw co Ht Ho) as [s1 [Hst [Hp [Hn [_ [Hdn _]]]]]].
     pose proof (Hgen s1 _ Hst) as G. rewrite Hst.
     apply G; try assumption; try (eexists; reflexivity);
-      unfold step in Hst; rewrite Ht in Hst; simpl in Hst; unfold send in Hst; simpl in Hst; rewrite Ho in Hst; simpl in Hst;
+      unfold step, api_step in Hst; rewrite Ht in Hst; simpl in Hst; unfold send in Hst; simpl in Hst; rewrite Ho in Hst; simpl in Hst;
       inversion Hst; subst; simpl; assumption || reflexivity.
   - (* APublish *) destruct (po_wants_ack o) eqn:Ew; [|discriminate]. inversion Ha; subst.
     destruct (publish_ack_one_message fl cfg s t a kw o Ht Ho Ew) as [s1 [Hst [Hp [Hn [_ [Hdn _]]]]]].
     pose proof (Hgen s1 _ Hst) as G. rewrite Hst.
     apply G; try assumption; try (eexists; reflexivity);
-      unfold step in Hst; rewrite Ht in Hst; simpl in Hst; rewrite Ew in Hst; unfold send in Hst; simpl in Hst; rewrite Ho in Hst; simpl in Hst;
+      unfold step, api_step in Hst; rewrite Ht in Hst; simpl in Hst; rewrite Ew in Hst; unfold send in Hst; simpl in Hst; rewrite Ho in Hst; simpl in Hst;
       inversion Hst; subst; simpl; assumption || reflexivity.
   - (* ASubscribe *) inversion Ha; subst.
     destruct (subscribe_one_message fl cfg s t o Ht Ho) as [s1 [Hst [Hp [Hn [_ [Hdn _]]]]]].
     pose proof (Hgen s1 _ Hst) as G. rewrite Hst.
     apply G; try assumption; try (eexists; reflexivity);
-      unfold step in Hst; rewrite Ht in Hst; simpl in Hst; unfold send in Hst; simpl in Hst; rewrite Ho in Hst; simpl in Hst;
+      unfold step, api_step in Hst; rewrite Ht in Hst; simpl in Hst; unfold send in Hst; simpl in Hst; rewrite Ho in Hst; simpl in Hst;
       inversion Hst; subst; simpl; assumption || reflexivity.
   - (* ARegister *) inversion Ha; subst.
     destruct (register_one_message fl cfg s t o Ht Ho) as [s1 [Hst [Hp [Hn [_ [Hdn _]]]]]].
     pose proof (Hgen s1 _ Hst) as G. rewrite Hst.
     apply G; try assumption; try (eexists; reflexivity);
-      unfold step in Hst; rewrite Ht in Hst; simpl in Hst; unfold send in Hst; simpl in Hst; rewrite Ho in Hst; simpl in Hst;
+      unfold step, api_step in Hst; rewrite Ht in Hst; simpl in Hst; unfold send in Hst; simpl in Hst; rewrite Ho in Hst; simpl in Hst;
       inversion Hst; subst; simpl; assumption || reflexivity.
   - (* AUnsubscribe *)
     destruct (sub_id_of s h) as [i|] eqn:Ei; [|discriminate]. destruct (assoc i (subs s)) as [[|h' [|? ?]]|] eqn:Eas; try discriminate.
@@ -2787,7 +2711,7 @@ Proof.
     destruct (unsubscribe_one_message fl cfg s h t Ht Ho Ei Eas) as [s1 [Hst [Hp [Hn [_ [Hdn _]]]]]].
     pose proof (Hgen s1 _ Hst) as G. rewrite Hst.
     apply G; try assumption; try (eexists; reflexivity);
-      unfold step in Hst; rewrite Ei, Eas in Hst; simpl in Hst; rewrite N.eqb_refl in Hst; simpl in Hst; rewrite Ht in Hst; simpl in Hst;
+      unfold step, api_step in Hst; rewrite Ei, Eas in Hst; simpl in Hst; rewrite N.eqb_refl in Hst; simpl in Hst; rewrite Ht in Hst; simpl in Hst;
       unfold send in Hst; simpl in Hst; rewrite Ho in Hst; simpl in Hst; inversion Hst; subst; simpl; assumption || reflexivity.
   - (* AUnregister *)
     destruct (reg_id_of s h) as [i|] eqn:Ei; [|discriminate]. destruct (assoc i (regs s)) as [h'|] eqn:Eas; [|discriminate].
@@ -2795,7 +2719,7 @@ Proof.
     destruct (unregister_one_message fl cfg s h t Ht Ho Ei Eas) as [s1 [Hst [Hp [Hn [_ [Hdn _]]]]]].
     pose proof (Hgen s1 _ Hst) as G. rewrite Hst.
     apply G; try assumption; try (eexists; reflexivity);
-      unfold step in Hst; rewrite Ei, Eas in Hst; rewrite N.eqb_refl in Hst; simpl in Hst; rewrite Ht in Hst; simpl in Hst;
+      unfold step, api_step in Hst; rewrite Ei, Eas in Hst; rewrite N.eqb_refl in Hst; simpl in Hst; rewrite Ht in Hst; simpl in Hst;
       unfold send in Hst; simpl in Hst; rewrite Ho in Hst; simpl in Hst; inversion Hst; subst; simpl; assumption || reflexivity.
 Qed.
 
@@ -2804,4 +2728,279 @@ Theorem fresh_future_not_done : forall fl cfg ops, is_done (final fl cfg ops) (n
 Proof.
   intros. apply is_done_false. intro Hin. apply in_map_iff in Hin. destruct Hin as [[g r] [Hg Hin]]. simpl in Hg. subst g.
   pose proof (i_done_lt _ _ (reachable_Inv fl cfg ops) _ _ Hin) as Hlt. lia.
+Qed.
+
+(* ---------------------------------------------------------------------------------------------------------- *)
+(* the error sweeps (_errback_outstanding_requests) with callbacks that re-enter the API                       *)
+(* ---------------------------------------------------------------------------------------------------------- *)
+(* what a piece of the session may do to the tables and ledgers while user callbacks run inside it:
+   results are only added (with content in P), futures are only created, a table entry either was there before or
+   belongs to a request issued meanwhile (fresh future); nothing is issued when there is no transport (the API
+   raises); the life-cycle part of the state is untouched *)
+Record sweep (P : result -> Prop) (s s' : sess) : Prop := {
+  sw_done : forall x y, In (x, y) (done s') -> In (x, y) (done s) \/ P y;
+  sw_mono : forall x y, In (x, y) (done s) -> In (x, y) (done s');
+  sw_fut : next_fut s <= next_fut s';
+  sw_pend : forall r', In r' (pend s') -> In r' (pend s) \/ next_fut s <= r_fut r';
+  sw_quiet : transport s = false -> pend s' = pend s;
+  sw_core : lcore s' = lcore s
+}.
+
+Lemma sweep_refl : forall P s, sweep P s s.
+Proof. intros. constructor; auto. lia. Qed.
+
+Lemma sweep_trans : forall P s s1 s2, sweep P s s1 -> sweep P s1 s2 -> sweep P s s2.
+Proof.
+  intros P s s1 s2 A B. destruct A, B.
+  assert (Htr : transport s1 = transport s) by (unfold lcore in sw_core0; inversion sw_core0; reflexivity).
+  constructor.
+  - intros x y H. destruct (sw_done1 x y H) as [H1|H1]; auto.
+  - auto.
+  - lia.
+  - intros r' H. destruct (sw_pend1 r' H) as [H1|H1]; [destruct (sw_pend0 r' H1) as [H2|H2]; auto | right; lia].
+  - intro Hq. rewrite sw_quiet1; [apply sw_quiet0; exact Hq | congruence].
+  - congruence.
+Qed.
+
+Lemma sweep_same : forall P s s', done s' = done s -> next_fut s' = next_fut s -> pend s' = pend s -> lcore s' = lcore s ->
+  sweep P s s'.
+Proof. intros P s s' A B C D. constructor; rewrite ?A, ?B, ?C; auto. lia. Qed.
+
+Lemma sweep_api_step : forall P cfg s o, sweep P s (fst (api_step cfg s o)).
+Proof.
+  intros P cfg s o. pose proof (LQ_api_step cfg s o) as [_ Hcore]. pose proof (api_step_done cfg s o) as Hdone.
+  constructor; try assumption.
+  - intros x y H. left. rewrite Hdone in H. exact H.
+  - intros x y H. rewrite Hdone. exact H.
+  - destruct o; simpl; try lia; unfold api_step.
+    + destruct (negb (transport s)); [simpl; lia|]. unfold new_request. cbv zeta beta iota.
+      destruct (send cfg _ _) as [o1 ok]. destruct ok; simpl; lia.
+    + destruct (negb (transport s)); [simpl; lia|]. destruct (po_wants_ack o); unfold new_request, new_id_only; cbv zeta beta iota;
+        destruct (send cfg _ _) as [o1 ok]; destruct ok; simpl; lia.
+    + destruct (negb (transport s)); [simpl; lia|]. unfold new_request. cbv zeta beta iota. destruct (send cfg _ _). simpl. lia.
+    + destruct (negb (transport s)); [simpl; lia|]. unfold new_request. cbv zeta beta iota. destruct (send cfg _ _). simpl. lia.
+    + destruct (reg_id_of s h); [|simpl; lia]. destruct (assoc n (regs s)); [|simpl; lia].
+      destruct (negb (n0 =? h)); [simpl; lia|]. destruct (negb (transport s)); [simpl; lia|].
+      unfold new_request. cbv zeta beta iota. destruct (send cfg _ _). simpl. lia.
+  - assert (Hput : forall k co t r', In r' (put_req (mkreq k (idgen_next (next_id s)) (next_fut s) co t) (pend s)) ->
+                   In r' (pend s) \/ next_fut s <= r_fut r').
+    { intros k co t r' Hr. destruct (put_req_sub _ _ _ Hr) as [->|Hr']; [right; simpl; lia | now left]. }
+    intros r' Hr. destruct o; simpl in Hr; try (now left); unfold api_step in Hr.
+    + destruct (negb (transport s)); [now left|]. unfold new_request in Hr. cbv zeta beta iota in Hr.
+      destruct (send cfg _ _) as [o1 ok]. destruct ok; simpl in Hr; [|apply remove_req_in in Hr]; eapply Hput; exact Hr.
+    + destruct (negb (transport s)); [now left|]. destruct (po_wants_ack o); unfold new_request, new_id_only in Hr; cbv zeta beta iota in Hr;
+        destruct (send cfg _ _) as [o1 ok]; destruct ok; simpl in Hr; try (now left); [|apply remove_req_in in Hr]; eapply Hput; exact Hr.
+    + destruct (negb (transport s)); [now left|]. unfold new_request in Hr. cbv zeta beta iota in Hr.
+      destruct (send cfg _ _). simpl in Hr. eapply Hput; exact Hr.
+    + destruct (negb (transport s)); [now left|]. unfold new_request in Hr. cbv zeta beta iota in Hr.
+      destruct (send cfg _ _). simpl in Hr. eapply Hput; exact Hr.
+    + destruct (reg_id_of s h); [|now left]. destruct (assoc n (regs s)); [|now left].
+      destruct (negb (n0 =? h)); [now left|]. destruct (negb (transport s)); [now left|].
+      unfold new_request in Hr. cbv zeta beta iota in Hr. destruct (send cfg _ _). simpl in Hr. eapply Hput; exact Hr.
+  - intro Ht. destruct o; try reflexivity; unfold api_step; rewrite ?Ht; try reflexivity.
+    destruct (reg_id_of s h); [|reflexivity]. destruct (assoc n (regs s)); [|reflexivity].
+    destruct (negb (n0 =? h)); reflexivity.
+Qed.
+
+Lemma sweep_react : forall P cfg s f, sweep P s (fst (react cfg s f)).
+Proof. intros. unfold react. destruct (assoc f (reacts s)); [apply sweep_api_step | apply sweep_refl]. Qed.
+
+Lemma sweep_complete : forall fl cfg (P : result -> Prop) s f r, P r -> sweep P s (fst (complete fl cfg s f r)).
+Proof.
+  intros fl cfg P s f r HP. unfold complete. destruct (is_done s f); [apply sweep_refl|].
+  assert (H1 : sweep P s (set_done s (done s ++ [(f, r)]))).
+  { constructor; simpl; auto; try lia.
+    - intros x y H. apply in_app_or in H. destruct H as [H|[H|[]]]; [now left | inversion H; subst; now right].
+    - intros x y H. apply in_or_app. now left. }
+  destruct fl.
+  - pose proof (sweep_react P cfg (set_done s (done s ++ [(f, r)])) f) as H2.
+    destruct (react cfg (set_done s (done s ++ [(f, r)])) f) as [s2 o2]. simpl in *. eapply sweep_trans; eassumption.
+  - simpl. eapply sweep_trans; [exact H1|]. apply sweep_same; reflexivity.
+Qed.
+
+Lemma complete_pend_aio : forall cfg s f r, pend (fst (complete Aio cfg s f r)) = pend s.
+Proof. intros. unfold complete. destruct (is_done s f); reflexivity. Qed.
+
+Lemma is_done_mono : forall s s' g, (forall x y, In (x, y) (done s) -> In (x, y) (done s')) -> is_done s g = true -> is_done s' g = true.
+Proof.
+  intros s s' g H Hd. apply is_done_in in Hd. apply is_done_in. apply in_map_iff in Hd. destruct Hd as [[x y] [E Hin]].
+  apply in_map_iff. exists (x, y). split; [assumption | now apply H].
+Qed.
+
+Lemma sweep_errback_list : forall fl cfg e l s,
+  let s' := fst (errback_list fl cfg s e l) in
+  sweep (fun y => y = RErr e) s s' /\ (forall r, In r l -> is_done s' (r_fut r) = true)
+  /\ (fl = Aio -> pend s' = pend s).
+Proof.
+  induction l as [|r t IH]; simpl; intro s.
+  - split; [apply sweep_refl | split; [intros r [] | reflexivity]].
+  - pose proof (sweep_complete fl cfg (fun y => y = RErr e) s (r_fut r) (RErr e) eq_refl) as H1.
+    pose proof (complete_is_done fl cfg s (r_fut r) (RErr e) (r_fut r)) as Hd1.
+    assert (Hp1 : fl = Aio -> pend (fst (complete fl cfg s (r_fut r) (RErr e))) = pend s) by (intros ->; apply complete_pend_aio).
+    destruct (complete fl cfg s (r_fut r) (RErr e)) as [s1 o1]. simpl in *.
+    destruct (IH s1) as [H2 [H3 H4]]. destruct (errback_list fl cfg s1 e t) as [s2 o2]. simpl in *.
+    split; [eapply sweep_trans; eassumption|]. split.
+    + intros r0 [<-|Hin]; [|now apply H3]. eapply is_done_mono; [apply (sw_mono _ _ _ H2)|].
+      rewrite Hd1, N.eqb_refl. apply orb_true_r.
+    + intro Ha. rewrite (H4 Ha). now apply Hp1.
+Qed.
+
+(* _errback_outstanding_requests(exc): every request that was in a table gets a result; what is in the tables
+   afterwards was issued by callbacks during the sweep (fresh futures) -- nothing at all without a transport or on
+   asyncio; only the error is handed out *)
+Theorem errback_all_spec : forall fl cfg s e,
+  let s' := fst (errback_all fl cfg s e) in
+  (forall r, In r (pend s) -> is_done s' (r_fut r) = true)
+  /\ (forall r', In r' (pend s') -> next_fut s <= r_fut r')
+  /\ (transport s = false \/ fl = Aio -> pend s' = [])
+  /\ (forall x y, In (x, y) (done s') -> In (x, y) (done s) \/ y = RErr e)
+  /\ (forall x y, In (x, y) (done s) -> In (x, y) (done s'))
+  /\ lcore s' = lcore s /\ next_fut s <= next_fut s'.
+Proof.
+  intros fl cfg s e. unfold errback_all.
+  destruct (sweep_errback_list fl cfg e (outstanding (pend s)) (set_pend s [])) as [H [Hd Ha]].
+  destruct H. simpl in *. repeat split; auto.
+  - intros r Hr. apply Hd. now apply outstanding_in.
+  - intros r' Hr'. destruct (sw_pend0 r' Hr') as [[]|H]. exact H.
+  - intros [Ht|Hf]; [now apply sw_quiet0 | now apply Ha].
+Qed.
+
+Lemma do_onLeave_core : forall fl cfg s rs, lcore (fst (fst (do_onLeave fl cfg s rs))) = lcore s.
+Proof.
+  intros. unfold do_onLeave. destruct (u_leave_super cfg); [|reflexivity].
+  pose proof (LQ_errback_all fl cfg s (ELeave rs)) as [_ B]. destruct (errback_all fl cfg s (ELeave rs)) as [s1 o1]. simpl in *.
+  destruct fl; simpl; [|exact B]. destruct (transport s1) eqn:Et; simpl; [|exact B].
+  rewrite <- B. unfold lcore. simpl. rewrite Et. reflexivity.
+Qed.
+
+(* the default onLeave *)
+Theorem onLeave_clears : forall fl cfg s rs,
+  u_leave_super cfg = true ->
+  let s' := fst (fst (do_onLeave fl cfg s rs)) in
+  (forall r, In r (pend s) -> is_done s' (r_fut r) = true)
+  /\ (forall r', In r' (pend s') -> next_fut s <= r_fut r')
+  /\ (transport s = false \/ fl = Aio -> pend s' = [])
+  /\ (forall x y, In (x, y) (done s') -> In (x, y) (done s) \/ y = RErr (ELeave rs))
+  /\ lcore s' = lcore s.
+Proof.
+  intros fl cfg s rs Hsup. pose proof (do_onLeave_core fl cfg s rs) as Hcore. unfold do_onLeave in *. rewrite Hsup in *.
+  destruct (errback_all_spec fl cfg s (ELeave rs)) as [A [B [C [D [_ [E _]]]]]].
+  destruct (errback_all fl cfg s (ELeave rs)) as [s1 o1].
+  pose proof (defer_leaf_ledger fl cfg s1 LLeaveDisconnect I) as HL. unfold ledger in HL. inversion HL as [[L1 L2 L3 L4 L5]].
+  destruct (defer_leaf fl cfg s1 LLeaveDisconnect) as [s2 o2]. simpl in *.
+  unfold is_done in *. rewrite L1, L2. repeat split; auto.
+Qed.
+
+Theorem onDisconnect_clears : forall fl cfg s,
+  u_disc_super cfg = true ->
+  let s' := fst (fst (do_onDisconnect fl cfg s)) in
+  (forall r, In r (pend s) -> is_done s' (r_fut r) = true)
+  /\ (transport s = false \/ fl = Aio -> pend s' = [])
+  /\ (forall x y, In (x, y) (done s') -> In (x, y) (done s) \/ y = RErr ETransportLost)
+  /\ lcore s' = lcore s.
+Proof.
+  intros fl cfg s Hsup. unfold do_onDisconnect. rewrite Hsup.
+  destruct (errback_all_spec fl cfg s ETransportLost) as [A [_ [C [D [_ [E _]]]]]].
+  destruct (errback_all fl cfg s ETransportLost) as [s1 o1]. simpl in *. repeat split; auto.
+Qed.
+
+(* session ended by the router's GOODBYE *)
+Theorem goodbye_ends : forall fl cfg s v rs,
+  transport s = true -> sid s = Some v -> (goodbye_sent s = true \/ topen s = true) ->
+  let '(s', outs) := step fl cfg s (RGoodbye rs) in
+  sid s' = None
+  /\ (goodbye_sent s = false -> exists t, outs = Sent (MGoodbye RsNormal) :: Called (CbLeave rs None) :: t)
+  /\ (goodbye_sent s = true -> exists t, outs = Called (CbLeave rs None) :: t)
+  /\ (u_leave_super cfg = true ->
+        (forall r, In r (pend s) -> is_done s' (r_fut r) = true)
+        /\ (forall r', In r' (pend s') -> next_fut s <= r_fut r')
+        /\ (fl = Aio -> pend s' = [])
+        /\ forall x y, In (x, y) (done s') -> In (x, y) (done s) \/ y = RErr (ELeave rs)).
+Proof.
+  intros fl cfg s v rs Ht Hs Hg. unfold step. rewrite Ht, Hs. simpl.
+  assert (Hsend : (if goodbye_sent s then ([], true) else send cfg s (MGoodbye RsNormal)) =
+                  (if goodbye_sent s then [] else [Sent (MGoodbye RsNormal)], true)).
+  { destruct (goodbye_sent s); [reflexivity|]. destruct Hg as [Hg|Hg]; [discriminate|]. now apply send_open. }
+  rewrite Hsend.
+  pose proof (onLeave_clears fl cfg (set_sid s None) rs) as Hc.
+  pose proof (do_onLeave_core fl cfg (set_sid s None) rs) as Hcore.
+  assert (Hhead : exists t, snd (fst (do_onLeave fl cfg (set_sid s None) rs)) = Called (CbLeave rs None) :: t).
+  { unfold do_onLeave. destruct (u_leave_super cfg); [|eexists; reflexivity].
+    destruct (errback_all fl cfg (set_sid s None) (ELeave rs)) as [s1 o1].
+    destruct (defer_leaf fl cfg s1 LLeaveDisconnect) as [s2 o2]. simpl. eexists; reflexivity. }
+  destruct (do_onLeave fl cfg (set_sid s None) rs) as [[s2 o2] raised]. simpl in *.
+  destruct Hhead as [t Ht2]. subst o2.
+  pose proof (defer_leaf_ledger fl cfg s2 (LLeaveK raised) I) as HL. unfold ledger in HL. inversion HL as [[L1 L2 L3 L4 L5]].
+  assert (Hs3 : sid (fst (defer_leaf fl cfg s2 (LLeaveK raised))) = sid s2) by (destruct fl; destruct raised; reflexivity).
+  destruct (defer_leaf fl cfg s2 (LLeaveK raised)) as [s3 o3]. simpl in *.
+  assert (Hsid2 : sid s2 = None) by (unfold lcore in Hcore; inversion Hcore; reflexivity).
+  repeat split.
+  - congruence.
+  - intro Hgs. rewrite Hgs. simpl. eexists; reflexivity.
+  - intro Hgs. rewrite Hgs. simpl. eexists; reflexivity.
+  - destruct (Hc H) as [A _]. unfold is_done in *. rewrite L2. exact A.
+  - destruct (Hc H) as [_ [B _]]. rewrite L1. exact B.
+  - destruct (Hc H) as [_ [_ [C _]]]. intro Ha. rewrite L1. apply C. now right.
+  - destruct (Hc H) as [_ [_ [_ [D _]]]]. rewrite L2. exact D.
+Qed.
+
+(* transport loss: with the default onDisconnect nothing stays pending, whatever the callbacks do: without a
+   transport every request they try to issue is refused *)
+Theorem lost_clears : forall fl cfg s clean,
+  transport s = true -> u_disc_super cfg = true ->
+  let s' := fst (step fl cfg s (OLost clean)) in
+  transport s' = false /\ pend s' = []
+  /\ (forall r, In r (pend s) -> is_done s' (r_fut r) = true)
+  /\ forall x y, In (x, y) (done s') -> In (x, y) (done s) \/ y = RErr (ELeave RsTransportLost) \/ y = RErr ETransportLost.
+Proof.
+  intros fl cfg s clean Ht Hsup. unfold step. rewrite Ht. simpl.
+  set (s0 := set_conn s (opened s) false false).
+  assert (H3 : let s3 := fst (if sid_truthy s0
+                 then let '(s1, o1, raised) := do_onLeave fl cfg s0 RsTransportLost in
+                      let '(s2, o2) := defer_leaf fl cfg s1 (LLeaveK raised) in (set_sid s2 None, o1 ++ o2)
+                 else (s0, [])) in
+             transport s3 = false
+             /\ (forall r, In r (pend s) -> In r (pend s3) \/ is_done s3 (r_fut r) = true)
+             /\ (forall x y, In (x, y) (done s) -> In (x, y) (done s3))
+             /\ forall x y, In (x, y) (done s3) -> In (x, y) (done s) \/ y = RErr (ELeave RsTransportLost)).
+  { destruct (sid_truthy s0); [|simpl; repeat split; auto].
+    pose proof (do_onLeave_core fl cfg s0 RsTransportLost) as Hcore.
+    assert (Hl : let s1 := fst (fst (do_onLeave fl cfg s0 RsTransportLost)) in
+                 (forall r, In r (pend s0) -> In r (pend s1) \/ is_done s1 (r_fut r) = true)
+                 /\ (forall x y, In (x, y) (done s0) -> In (x, y) (done s1))
+                 /\ forall x y, In (x, y) (done s1) -> In (x, y) (done s0) \/ y = RErr (ELeave RsTransportLost)).
+    { destruct (u_leave_super cfg) eqn:El.
+      - destruct (onLeave_clears fl cfg s0 RsTransportLost El) as [A [_ [_ [D _]]]].
+        cbv zeta. split; [intros r Hr; right; now apply A|]. split; [|exact D].
+        unfold do_onLeave. rewrite El. destruct (errback_all_spec fl cfg s0 (ELeave RsTransportLost)) as [_ [_ [_ [_ [M _]]]]].
+        destruct (errback_all fl cfg s0 (ELeave RsTransportLost)) as [s1 o1].
+        pose proof (defer_leaf_ledger fl cfg s1 LLeaveDisconnect I) as HL. unfold ledger in HL. inversion HL as [[L1 L2 L3 L4 L5]].
+        destruct (defer_leaf fl cfg s1 LLeaveDisconnect) as [s2 o2]. simpl in *. rewrite L2. exact M.
+      - unfold do_onLeave. rewrite El. simpl. repeat split; auto. }
+    destruct (do_onLeave fl cfg s0 RsTransportLost) as [[s1 o1] raised]. simpl in *.
+    pose proof (defer_leaf_ledger fl cfg s1 (LLeaveK raised) I) as HL. unfold ledger in HL. inversion HL as [[L1 L2 L3 L4 L5]].
+    assert (Ht3 : transport (fst (defer_leaf fl cfg s1 (LLeaveK raised))) = transport s1) by (destruct fl; destruct raised; reflexivity).
+    destruct (defer_leaf fl cfg s1 (LLeaveK raised)) as [s2 o2]. simpl in *.
+    destruct Hl as [A [M D]]. unfold is_done in *. simpl. rewrite ?L1, ?L2.
+    split; [|split; [exact A | split; [exact M | exact D]]].
+    rewrite Ht3. unfold lcore in Hcore. inversion Hcore. reflexivity. }
+  destruct (if sid_truthy s0
+            then let '(s1, o1, raised) := do_onLeave fl cfg s0 RsTransportLost in
+                 let '(s2, o2) := defer_leaf fl cfg s1 (LLeaveK raised) in (set_sid s2 None, o1 ++ o2)
+            else (s0, [])) as [s3 o3]. simpl in H3. destruct H3 as [Htr3 [Hp3 [Hm3 Hd3]]].
+  destruct (onDisconnect_clears fl cfg s3 Hsup) as [A4 [C4 [D4 Hcore4]]].
+  assert (Hm4 : forall x y, In (x, y) (done s3) -> In (x, y) (done (fst (fst (do_onDisconnect fl cfg s3))))).
+  { unfold do_onDisconnect. rewrite Hsup. destruct (errback_all_spec fl cfg s3 ETransportLost) as [_ [_ [_ [_ [M _]]]]].
+    destruct (errback_all fl cfg s3 ETransportLost) as [s4 o4]. exact M. }
+  destruct (do_onDisconnect fl cfg s3) as [[s4 o4] raised]. simpl in *.
+  pose proof (defer_leaf_ledger fl cfg s4 (LDiscK raised) I) as HL. unfold ledger in HL. inversion HL as [[L1 L2 L3 L4 L5]].
+  assert (Ht5 : transport (fst (defer_leaf fl cfg s4 (LDiscK raised))) = transport s4) by (destruct fl; destruct raised; reflexivity).
+  destruct (defer_leaf fl cfg s4 (LDiscK raised)) as [s5 o5]. simpl in *.
+  unfold is_done in *. rewrite L1, L2. repeat split.
+  - rewrite Ht5. unfold lcore in Hcore4. inversion Hcore4. congruence.
+  - apply C4. now left.
+  - intros r Hr. destruct (Hp3 r Hr) as [H|H]; [now apply A4|].
+    apply is_done_in. apply is_done_in in H. unfold is_done in *. apply in_map_iff in H. destruct H as [[x y] [E Hin]].
+    apply in_map_iff. exists (x, y). split; [assumption | now apply Hm4].
+  - intros x y Hin. destruct (D4 x y Hin) as [H|H]; [|auto]. destruct (Hd3 x y H); auto.
 Qed.
